@@ -1,6 +1,9 @@
-(* Proofs for C29 (model/S3Paths.v): lexical cleaning never climbs above a prefix when
-   no ".." segment follows it; every path the gateway produces for a request without
-   ".." segments stays inside the bucket directory; concrete escaping requests. *)
+(* Proofs for C29 (model/S3Paths.v): a lexical walk that never pops the empty stack
+   (`escapes`) keeps the cleaned path under its prefix; every path the gateway produces
+   for a request none of whose strings climbs stays inside the bucket directory (all
+   routes, all fixtures; also the data dependent purge / listing descent); the same walk
+   with ".uploads" forbidden directly below the bucket keeps object routes out of the
+   multipart area; concrete escaping requests. *)
 From Coq Require Import List NArith Bool String Ascii Arith Lia.
 From SW Require Import model.S3List model.S3Paths.
 Import ListNotations.
@@ -318,35 +321,247 @@ Proof.
   exists "", r. reflexivity.
 Qed.
 
-(* ---------- containment, parametrised by a set of forbidden segment names ---------- *)
 
-Section Under.
-  Variable bad : string -> bool.
-  Hypothesis bad_dotdot : bad ".." = true.
+(* ---------- more string lemmas ---------- *)
 
-  Definition okl (l : list string) : Prop := forall s, In s l -> bad s = false.
+Lemma ends_app_slash : forall x, ends_with_slash (x ++ "/") = true.
+Proof.
+  induction x as [|c x IH]; [reflexivity|].
+  change (String c x ++ "/") with (String c (x ++ "/")).
+  destruct x as [|c2 x2]; [reflexivity|].
+  change (String c2 x2 ++ "/") with (String c2 (x2 ++ "/")) in *.
+  exact IH.
+Qed.
 
-  Lemma okl_nodd : forall l, okl l -> nodd l.
-  Proof. intros l H s Hs E. subst s. rewrite (H _ Hs) in bad_dotdot. discriminate. Qed.
+Lemma strip_app_slash : forall x, strip_one_trailing_slash (x ++ "/") = x.
+Proof.
+  induction x as [|c x IH]; [reflexivity|].
+  change (String c x ++ "/") with (String c (x ++ "/")).
+  destruct x as [|c2 x2]; [reflexivity|].
+  change (String c2 x2 ++ "/") with (String c2 (x2 ++ "/")) in *.
+  change (strip_one_trailing_slash (String c (String c2 (x2 ++ "/"))))
+    with (String c (strip_one_trailing_slash (String c2 (x2 ++ "/")))).
+  rewrite IH. reflexivity.
+Qed.
 
-  Lemma okl_app : forall a b, okl a -> okl b -> okl (a ++ b).
-  Proof. intros a b Ha Hb s Hs. apply in_app_or in Hs. destruct Hs; [apply Ha | apply Hb]; assumption. Qed.
+Lemma strip_one_spec : forall s, ends_with_slash s = true -> s = strip_one_trailing_slash s ++ "/".
+Proof.
+  induction s as [|c r IH]; intros H; [discriminate|].
+  destruct r as [|c2 r2].
+  - simpl in H. apply ascii_eqb_true in H. subst c. reflexivity.
+  - change (ends_with_slash (String c (String c2 r2))) with (ends_with_slash (String c2 r2)) in H.
+    change (String c (String c2 r2) = String c (strip_one_trailing_slash (String c2 r2) ++ "/")).
+    rewrite <- (IH H). reflexivity.
+Qed.
 
-  Lemma okl_app_l : forall a b, okl (a ++ b) -> okl a.
-  Proof. intros a b H s Hs. apply H. apply in_or_app. left. exact Hs. Qed.
+(* ---------- the lexical walk ---------- *)
 
-  Lemma okl_app_r : forall a b, okl (a ++ b) -> okl b.
-  Proof. intros a b H s Hs. apply H. apply in_or_app. right. exact Hs. Qed.
+Definition run (st segs : list string) : list string := fold_left (norm_step true) segs st.
 
-  Lemma okl_removelast : forall l, okl l -> okl (removelast l).
+Lemma run_app : forall A B st, run st (A ++ B) = run (run st A) B.
+Proof. intros A B st. unfold run. apply fold_left_app. Qed.
+
+Lemma skip_seg_step : forall s st, skip_seg s = true -> norm_step true st s = st.
+Proof. intros s st H. unfold norm_step. unfold skip_seg in H. rewrite H. reflexivity. Qed.
+
+Section Walk.
+  Variable forbid : string -> bool.
+
+  Lemma esc_skip : forall s st r, skip_seg s = true -> escapes forbid st (s :: r) = escapes forbid st r.
+  Proof. intros s st r H. simpl. rewrite H. reflexivity. Qed.
+
+  (* a prefix of a walk that does not escape does not escape *)
+  Lemma esc_prefix : forall A B st, escapes forbid st (A ++ B) = false -> escapes forbid st A = false.
   Proof.
-    intros l H s Hs. apply H. clear H. induction l as [|a l IH]; [destruct Hs|].
-    simpl in Hs. destruct l as [|b l']; [destruct Hs|]. destruct Hs as [Hs|Hs]; [left; exact Hs | right; apply IH; exact Hs].
+    induction A as [|s A IH]; intros B st H; [reflexivity|].
+    simpl in H. simpl. destruct (skip_seg s); [exact (IH B st H)|].
+    destruct (s =? "..").
+    - destruct st as [|t st']; [discriminate | exact (IH B st' H)].
+    - destruct (match st with [] => forbid s | _ :: _ => false end); [discriminate | exact (IH B _ H)].
   Qed.
 
-  (* the raw segments of P are  "", "buckets", b  followed by allowed segments *)
-  Definition under (b P : string) : Prop :=
-    exists C, split_slash P = ("" :: "buckets" :: b :: C)%list /\ okl C.
+  (* a deeper stack only helps *)
+  Lemma esc_weaken : forall B st st2, escapes forbid st B = false -> escapes forbid (st ++ st2) B = false.
+  Proof.
+    induction B as [|s B IH]; intros st st2 H; [reflexivity|].
+    simpl in H. simpl. destruct (skip_seg s); [exact (IH st st2 H)|].
+    destruct (s =? "..").
+    - destruct st as [|t st']; [discriminate|]. simpl. exact (IH st' st2 H).
+    - destruct st as [|t st'].
+      + destruct (forbid s) eqn:EF; [discriminate|]. simpl app.
+        destruct st2 as [|u st2'].
+        * exact H.
+        * exact (IH [s] (u :: st2') H).
+      + simpl. exact (IH (s :: t :: st') st2 H).
+  Qed.
+
+  (* while the walk does not escape, its stack is the normalisation stack of clean *)
+  Lemma esc_app : forall A B st, nodd st -> escapes forbid st A = false ->
+    escapes forbid st (A ++ B) = escapes forbid (run st A) B /\ nodd (run st A).
+  Proof.
+    induction A as [|s A IH]; intros B st N H; [split; [reflexivity | exact N]|].
+    simpl in H. change ((s :: A) ++ B)%list with (s :: (A ++ B))%list.
+    change (run st (s :: A)) with (run (norm_step true st s) A).
+    simpl escapes. destruct (skip_seg s) eqn:ES.
+    - rewrite (skip_seg_step s st ES). exact (IH B st N H).
+    - assert (ES' : ((s =? "") || (s =? ".")) = false) by exact ES.
+      unfold norm_step. rewrite ES'. destruct (s =? "..") eqn:ED.
+      + destruct st as [|t st']; [discriminate|].
+        assert (Ht : (t =? "..") = false) by (apply String.eqb_neq; apply N; left; reflexivity).
+        rewrite Ht. apply IH; [|exact H]. intros x Hx. apply N. right. exact Hx.
+      + assert (N' : nodd (s :: st)).
+        { intros x [Hx|Hx]; [subst x; apply String.eqb_neq; exact ED | apply N; exact Hx]. }
+        destruct (match st with [] => forbid s | _ :: _ => false end); [discriminate|].
+        exact (IH B (s :: st) N' H).
+  Qed.
+
+  Lemma nodd_nil : nodd [].
+  Proof. intros s []. Qed.
+
+  Definition okw (l : list string) : Prop := escapes forbid [] l = false.
+  Notation ok := okw.
+
+  Lemma ok_nil : ok [].
+  Proof. reflexivity. Qed.
+
+  Lemma ok_prefix : forall A B, ok (A ++ B) -> ok A.
+  Proof. intros A B H. exact (esc_prefix A B [] H). Qed.
+
+  Lemma ok_app : forall A B, ok A -> ok B -> ok (A ++ B).
+  Proof.
+    intros A B HA HB. unfold okw. destruct (esc_app A B [] nodd_nil HA) as [E _]. rewrite E.
+    exact (esc_weaken B [] (run [] A) HB).
+  Qed.
+
+  Lemma ok_cons_skip : forall s l, skip_seg s = true -> ok (s :: l) <-> ok l.
+  Proof. intros s l H. unfold okw. rewrite (esc_skip s [] l H). tauto. Qed.
+
+  (* a skipped segment in the middle does not matter *)
+  Lemma esc_mid_skip : forall A s B st, skip_seg s = true ->
+    escapes forbid st (A ++ s :: B) = escapes forbid st (A ++ B).
+  Proof.
+    induction A as [|a A IH]; intros s B st H.
+    - simpl. rewrite H. reflexivity.
+    - change ((a :: A) ++ s :: B)%list with (a :: (A ++ s :: B))%list.
+      change ((a :: A) ++ B)%list with (a :: (A ++ B))%list.
+      simpl. destruct (skip_seg a); [apply IH; exact H|].
+      destruct (a =? "..").
+      + destruct st as [|t st']; [reflexivity | apply IH; exact H].
+      + destruct (match st with [] => forbid a | _ :: _ => false end); [reflexivity | apply IH; exact H].
+  Qed.
+
+  Lemma ok_snoc_skip : forall A s, skip_seg s = true -> ok A -> ok (A ++ [s]).
+  Proof. intros A s H HA. unfold okw. rewrite (esc_mid_skip A s [] [] H). rewrite app_nil_r. exact HA. Qed.
+
+  Lemma plain_seg_spec : forall s, plain_seg s = true -> s <> "" /\ s <> "." /\ s <> "..".
+  Proof.
+    intros s H. unfold plain_seg in H. apply negb_true_iff in H.
+    apply orb_false_iff in H. destruct H as [H H3]. apply orb_false_iff in H. destruct H as [H1 H2].
+    repeat split; apply String.eqb_neq; assumption.
+  Qed.
+
+  Lemma plain_not_skip : forall s, plain_seg s = true -> skip_seg s = false /\ (s =? "..") = false.
+  Proof.
+    intros s H. destruct (plain_seg_spec s H) as [A [B C]]. unfold skip_seg. split.
+    - apply orb_false_iff. split; apply String.eqb_neq; assumption.
+    - apply String.eqb_neq. exact C.
+  Qed.
+
+  (* appending an ordinary name *)
+  Lemma ok_snoc_plain : forall A s, ok A -> plain_seg s = true -> (run [] A = [] -> forbid s = false) ->
+    ok (A ++ [s]).
+  Proof.
+    intros A s HA P F. unfold okw. destruct (esc_app A [s] [] nodd_nil HA) as [E _]. rewrite E.
+    destruct (plain_not_skip s P) as [S D]. simpl. rewrite S, D.
+    destruct (run [] A) as [|t st]; [rewrite (F eq_refl); reflexivity | reflexivity].
+  Qed.
+
+  (* the stack never reaches below what it started on *)
+  Lemma run_base : forall C st base, nodd st -> escapes forbid st C = false ->
+    run (st ++ base) C = (run st C ++ base)%list.
+  Proof.
+    induction C as [|s C IH]; intros st base N H; [reflexivity|].
+    simpl in H. change (run (st ++ base) (s :: C)) with (run (norm_step true (st ++ base) s) C).
+    change (run st (s :: C)) with (run (norm_step true st s) C).
+    destruct (skip_seg s) eqn:ES.
+    - rewrite !(skip_seg_step s _ ES). exact (IH st base N H).
+    - assert (ES' : ((s =? "") || (s =? ".")) = false) by exact ES.
+      unfold norm_step. rewrite ES'. destruct (s =? "..") eqn:ED.
+      + destruct st as [|t st']; [discriminate|].
+        assert (Ht : (t =? "..") = false) by (apply String.eqb_neq; apply N; left; reflexivity).
+        simpl. rewrite Ht. apply IH; [|exact H]. intros x Hx. apply N. right. exact Hx.
+      + assert (N' : nodd (s :: st)).
+        { intros x [Hx|Hx]; [subst x; apply String.eqb_neq; exact ED | apply N; exact Hx]. }
+        destruct (match st with [] => forbid s | _ :: _ => false end); [discriminate|].
+        exact (IH (s :: st) base N' H).
+  Qed.
+
+  (* the bottom of the stack is never a forbidden name *)
+  Definition botok (st : list string) : Prop := st = [] \/ forbid (last st "") = false.
+
+  Lemma last_cons2 : forall (a b : string) l d, last (a :: b :: l) d = last (b :: l) d.
+  Proof. reflexivity. Qed.
+
+  Lemma run_botok : forall C st, nodd st -> escapes forbid st C = false -> botok st -> botok (run st C).
+  Proof.
+    induction C as [|s C IH]; intros st N H B; [exact B|].
+    simpl in H. change (run st (s :: C)) with (run (norm_step true st s) C).
+    destruct (skip_seg s) eqn:ES.
+    - rewrite (skip_seg_step s st ES). exact (IH st N H B).
+    - assert (ES' : ((s =? "") || (s =? ".")) = false) by exact ES.
+      unfold norm_step. rewrite ES'. destruct (s =? "..") eqn:ED.
+      + destruct st as [|t st']; [discriminate|].
+        assert (Ht : (t =? "..") = false) by (apply String.eqb_neq; apply N; left; reflexivity).
+        rewrite Ht.
+        assert (B' : botok st').
+        { destruct st' as [|u st'']; [left; reflexivity|]. right.
+          destruct B as [B|B]; [discriminate|]. rewrite last_cons2 in B. exact B. }
+        apply IH; [intros x Hx; apply N; right; exact Hx | exact H | exact B'].
+      + assert (N' : nodd (s :: st)).
+        { intros x [Hx|Hx]; [subst x; apply String.eqb_neq; exact ED | apply N; exact Hx]. }
+        destruct st as [|t st'].
+        * destruct (forbid s) eqn:EF; [discriminate|]. apply IH; [exact N' | exact H|]. right. exact EF.
+        * apply IH; [exact N' | exact H|]. right. destruct B as [B|B]; [discriminate|]. rewrite last_cons2. exact B.
+  Qed.
+End Walk.
+
+(* ---------- containment, parametrised by the names forbidden directly below the bucket ---------- *)
+
+Section Under.
+  Variable forbid : string -> bool.
+
+  Notation ok := (okw forbid).
+
+  (* the raw segments of P are  "", "buckets", b  followed by a walk that does not escape *)
+  Definition under_ext (b P : string) (R : list string) : Prop :=
+    exists C, split_slash P = ("" :: "buckets" :: b :: C)%list /\ ok (C ++ R).
+  Definition under (b P : string) : Prop := under_ext b P [].
+
+  Lemma under_spec : forall b P, under b P <-> exists C, split_slash P = ("" :: "buckets" :: b :: C)%list /\ ok C.
+  Proof.
+    intros b P. unfold under, under_ext. split; intros [C [E O]]; exists C; split; try exact E.
+    - rewrite app_nil_r in O. exact O.
+    - rewrite app_nil_r. exact O.
+  Qed.
+
+  Lemma under_ext_under : forall b P R, under_ext b P R -> under b P.
+  Proof. intros b P R [C [E O]]. apply under_spec. exists C. split; [exact E | exact (ok_prefix forbid C R O)]. Qed.
+
+  Lemma under_ext_app : forall b P r R, under_ext b P (split_slash r ++ R) -> under_ext b (P ++ String slash r) R.
+  Proof.
+    intros b P r R [C [E O]]. exists (C ++ split_slash r)%list. split.
+    - rewrite split_app_slash, E. reflexivity.
+    - rewrite <- app_assoc. exact O.
+  Qed.
+
+  Lemma under_app : forall b P r, under_ext b P (split_slash r) -> under b (P ++ String slash r).
+  Proof. intros b P r H. apply under_ext_app. rewrite app_nil_r. exact H. Qed.
+
+  Lemma under_ext_ok : forall b P R, under b P -> ok R -> under_ext b P R.
+  Proof.
+    intros b P R U O. apply under_spec in U. destruct U as [C [E OC]]. exists C. split; [exact E|].
+    apply ok_app; assumption.
+  Qed.
 
   Definition good (b : string) : Prop := bad_bucket b = false.
 
@@ -370,61 +585,68 @@ Section Under.
     rewrite split_app_slash. rewrite (no_slash_split b H). reflexivity.
   Qed.
 
-  Lemma under_bucket_dir : forall b, good b -> under b (bucket_dir b).
+  Lemma under_ext_bucket_dir : forall b R, good b -> ok R -> under_ext b (bucket_dir b) R.
   Proof.
-    intros b H. destruct (good_spec b H) as [_ [_ [_ [N _]]]].
-    exists []. split; [apply split_bucket_dir; exact N | intros s []].
+    intros b R H O. destruct (good_spec b H) as [_ [_ [_ [N _]]]].
+    exists []. split; [apply split_bucket_dir; exact N | exact O].
   Qed.
 
-  Lemma under_app : forall b P r, under b P -> okl (split_slash r) -> under b (P ++ String slash r).
-  Proof.
-    intros b P r [C [E O]] Hr. exists (C ++ split_slash r)%list. split.
-    - rewrite split_app_slash, E. reflexivity.
-    - apply okl_app; assumption.
-  Qed.
+  Lemma under_bucket_dir : forall b, good b -> under b (bucket_dir b).
+  Proof. intros b H. apply under_ext_bucket_dir; [exact H | apply ok_nil]. Qed.
 
   Lemma under_rooted : forall b P, under b P -> starts_with_slash P = true.
   Proof. intros b P [C [E _]]. exact (split_head_rooted _ _ _ E). Qed.
 
-  Lemma rsegs_under : forall b P, good b -> under b P ->
-    exists C', rsegs P = ("buckets" :: b :: C')%list /\ okl C' /\ Forall clean_seg C'.
+  Lemma plain_bucket : forall b, good b -> plain_seg b = true.
   Proof.
-    intros b P G [C [E O]]. destruct (good_spec b G) as [B1 [B2 [B3 _]]].
-    exists (filter keep C). unfold rsegs. rewrite E.
-    change ("" :: "buckets" :: b :: C)%list with (["" ; "buckets"; b] ++ C)%list.
-    rewrite norm_app_nodd by (apply okl_nodd; exact O).
-    assert (Hb : norm_segs true ["" ; "buckets"; b] = ["buckets"; b]).
-    { rewrite norm_nodd.
-      - simpl. unfold keep at 1. simpl.
-        unfold keep. destruct (b =? "") eqn:E1; [apply str_eqb_true in E1; contradiction|].
-        destruct (b =? ".") eqn:E2; [apply str_eqb_true in E2; contradiction|]. reflexivity.
-      - intros s [Hs|[Hs|[Hs|[]]]]; subst s; try discriminate. exact B3. }
-    rewrite Hb. split; [reflexivity|]. split.
-    - intros s Hs. apply filter_In in Hs. apply O. exact (proj1 Hs).
-    - apply Forall_forall. intros s Hs. apply filter_In in Hs. destruct Hs as [Hs Hk].
-      unfold keep in Hk. apply negb_true_iff in Hk. apply orb_false_iff in Hk. destruct Hk as [K1 K2].
-      repeat split; try (apply str_eqb_false; assumption).
-      apply (okl_nodd C O). exact Hs.
+    intros b G. destruct (good_spec b G) as [B1 [B2 [B3 _]]]. unfold plain_seg.
+    apply negb_true_iff. apply orb_false_iff. split; [apply orb_false_iff; split|]; apply String.eqb_neq; assumption.
+  Qed.
+
+  (* the cleaned segments of a path under the bucket directory *)
+  Lemma rsegs_under : forall b P, good b -> under b P ->
+    exists C C', split_slash P = ("" :: "buckets" :: b :: C)%list /\ ok C /\
+                 C' = norm_segs true C /\
+                 rsegs P = ("buckets" :: b :: C')%list /\ Forall clean_seg C' /\
+                 (forall x r, C' = (x :: r)%list -> forbid x = false).
+  Proof.
+    intros b P G U. apply under_spec in U. destruct U as [C [E O]].
+    exists C, (norm_segs true C). split; [exact E|]. split; [exact O|]. split; [reflexivity|].
+    destruct (plain_not_skip b (plain_bucket b G)) as [Sb Db].
+    assert (Sb' : ((b =? "") || (b =? ".")) = false) by exact Sb.
+    split; [|split].
+    - unfold rsegs. rewrite E. unfold norm_segs.
+      change (fold_left (norm_step true) ("" :: "buckets" :: b :: C) [])
+        with (run (norm_step true (norm_step true (norm_step true [] "") "buckets") b) C).
+      assert (E3 : norm_step true (norm_step true (norm_step true [] "") "buckets") b = [b; "buckets"]).
+      { unfold norm_step at 2 3. simpl. unfold norm_step. rewrite Sb', Db. reflexivity. }
+      rewrite E3.
+      change [b; "buckets"] with ([] ++ [b; "buckets"])%list.
+      rewrite (run_base forbid C [] [b; "buckets"] (nodd_nil) O).
+      rewrite rev_app_distr. reflexivity.
+    - apply norm_rooted_clean.
+    - intros x r Ex.
+      pose proof (run_botok forbid C [] nodd_nil O (or_introl eq_refl)) as B.
+      unfold norm_segs in Ex. fold (run [] C) in Ex.
+      assert (EL : run [] C = (rev r ++ [x])%list).
+      { rewrite <- (rev_involutive (run [] C)). rewrite Ex. reflexivity. }
+      destruct B as [B|B].
+      + rewrite B in EL. destruct (rev r); discriminate.
+      + rewrite EL in B. rewrite last_last in B. exact B.
   Qed.
 
   Lemma clean_bucket_dir : forall b, good b -> clean (bucket_dir b) = bucket_dir b.
   Proof.
-    intros b G. destruct (rsegs_under b (bucket_dir b) G (under_bucket_dir b G)) as [C' [E _]].
-    assert (E2 : rsegs (bucket_dir b) = ["buckets"; b]).
-    { destruct (good_spec b G) as [B1 [B2 [B3 [N _]]]].
-      unfold rsegs. rewrite (split_bucket_dir b N). rewrite norm_nodd.
-      - simpl. unfold keep. simpl.
-        destruct (b =? "") eqn:E1; [apply str_eqb_true in E1; contradiction|].
-        destruct (b =? ".") eqn:E3; [apply str_eqb_true in E3; contradiction|]. reflexivity.
-      - intros s [Hs|[Hs|[Hs|[]]]]; subst s; try discriminate. exact B3. }
-    rewrite clean_rooted by reflexivity. rewrite E2. reflexivity.
+    intros b G. destruct (rsegs_under b (bucket_dir b) G (under_bucket_dir b G)) as [C [C' [E [_ [EC [R _]]]]]].
+    destruct (good_spec b G) as [_ [_ [_ [N _]]]]. rewrite (split_bucket_dir b N) in E.
+    inversion E; subst C. subst C'. rewrite clean_rooted by reflexivity. rewrite R. reflexivity.
   Qed.
 
   Lemma under_contained : forall b P, good b -> under b P -> contained b P = true.
   Proof.
     intros b P G U. unfold contained. rewrite (clean_bucket_dir b G).
     rewrite (clean_rooted P (under_rooted b P U)).
-    destruct (rsegs_under b P G U) as [C' [E _]]. rewrite E. unfold inside.
+    destruct (rsegs_under b P G U) as [C [C' [_ [_ [_ [E _]]]]]]. rewrite E. unfold inside.
     destruct C' as [|c C''].
     - change ("/" ++ join_slash ["buckets"; b]) with (bucket_dir b). rewrite String.eqb_refl. reflexivity.
     - apply orb_true_iff. right.
@@ -445,18 +667,8 @@ Section Under.
   Lemma contained_mux_clean : forall b X, starts_with_slash X = true -> contained b (mux_clean X) = contained b X.
   Proof. intros b X H. unfold contained. rewrite clean_mux_clean by exact H. reflexivity. Qed.
 
-  Hypothesis bad_empty : bad "" = false.
-  Hypothesis bad_buckets : bad "buckets" = false.
-  Hypothesis bad_dot : bad "." = false.
-
   Definition cok (b : string) (c : fcall) : Prop :=
     match effective c with Some e => under b e \/ (exists X, under b X /\ (e = clean X \/ e = mux_clean X)) | None => True end.
-
-  Lemma okl_one : forall s, bad s = false -> okl [s].
-  Proof. intros s H x [E|[]]. subst x. exact H. Qed.
-
-  Lemma okl_split_one : forall s, no_slash s = true -> bad s = false -> okl (split_slash s).
-  Proof. intros s N H. rewrite (no_slash_split s N). apply okl_one. exact H. Qed.
 
   (* ----- HTTP ----- *)
   Lemma http_calls_cok : forall b m p, under b p -> Forall (cok b) (http_calls m p).
@@ -501,37 +713,46 @@ Section Under.
       + rewrite E. reflexivity.
   Qed.
 
-  Lemma join_path_cok_form : forall b D n, under b D -> okl (split_slash n) ->
+  Lemma join_path_cok_form : forall b D n, under_ext b D (split_slash n) ->
     exists X, under b X /\ join_path D n = clean X.
   Proof.
-    intros b D n U O. unfold join_path. destruct (n =? "") eqn:En.
-    - exists D. split; [exact U | reflexivity].
+    intros b D n U. unfold join_path. destruct (n =? "") eqn:En.
+    - exists D. split; [exact (under_ext_under b D _ U) | reflexivity].
     - destruct (D =? "") eqn:Ed.
       + apply str_eqb_true in Ed. subst D. destruct U as [C [E _]]. discriminate.
-      + exists (D ++ String slash n). split; [apply under_app; assumption | reflexivity].
+      + exists (D ++ String slash n). split; [apply under_app; exact U | reflexivity].
   Qed.
 
-  Lemma lookup_cok : forall b D n, under b D -> okl (split_slash n) -> cok b (GLookup D n).
+  Lemma lookup_cok : forall b D n, under_ext b D (split_slash n) -> cok b (GLookup D n).
   Proof.
-    intros b D n U O. unfold cok. simpl. right.
-    destruct (join_path_cok_form b D n U O) as [X [UX E]]. exists X. split; [exact UX | left; exact E].
+    intros b D n U. unfold cok. simpl. right.
+    destruct (join_path_cok_form b D n U) as [X [UX E]]. exists X. split; [exact UX | left; exact E].
   Qed.
 
-  Lemma delete_cok : forall b D n r, under b D -> okl (split_slash n) -> cok b (GDelete D n r).
+  Lemma delete_cok : forall b D n r, under_ext b D (split_slash n) -> cok b (GDelete D n r).
   Proof.
-    intros b D n r U O. unfold cok. simpl. right.
-    destruct (join_path_cok_form b D n U O) as [X [UX E]]. exists X. split; [exact UX | left; exact E].
+    intros b D n r U. unfold cok. simpl. right.
+    destruct (join_path_cok_form b D n U) as [X [UX E]]. exists X. split; [exact UX | left; exact E].
+  Qed.
+
+  Lemma dn_no_slash : forall P, no_slash (snd (dir_and_name P)) = true.
+  Proof.
+    intros P. unfold dir_and_name. destruct (rcut_slash P) as [[d0 n]|] eqn:R; [|reflexivity].
+    destruct (rcut_slash_spec _ _ _ R) as [_ N]. destruct (d0 =? ""); exact N.
   Qed.
 
   (* DirAndName of a path with at least one segment behind the bucket *)
-  Lemma dn_under : forall b P C, split_slash P = ("" :: "buckets" :: b :: C)%list -> C <> [] -> okl C ->
-    under b (fst (dir_and_name P)) /\ okl [snd (dir_and_name P)] /\
+  Lemma dn_under : forall b P C, split_slash P = ("" :: "buckets" :: b :: C)%list -> C <> [] -> ok C ->
+    split_slash (fst (dir_and_name P)) = ("" :: "buckets" :: b :: removelast C)%list /\
+    snd (dir_and_name P) = last C "" /\
+    under_ext b (fst (dir_and_name P)) (split_slash (snd (dir_and_name P))) /\
     P = fst (dir_and_name P) ++ String slash (snd (dir_and_name P)).
   Proof.
     intros b P C E NE O.
     assert (HP : starts_with_slash P = true) by exact (split_head_rooted _ _ _ E).
     destruct (starts_with_slash_spec _ HP) as [r Er]. subst P.
-    destruct (rcut_rooted r) as [d0 [n R]]. unfold dir_and_name. rewrite R.
+    pose proof (dn_no_slash (String slash r)) as NS.
+    destruct (rcut_rooted r) as [d0 [n R]]. unfold dir_and_name in *. rewrite R in *.
     pose proof (rcut_split _ _ _ R) as S. rewrite E in S.
     destruct (rcut_slash_spec _ _ _ R) as [E2 N].
     assert (Hd : split_slash d0 = ("" :: "buckets" :: b :: removelast C)%list /\ n = last C "").
@@ -541,11 +762,9 @@ Section Under.
     destruct Hd as [Hd Hn].
     destruct (d0 =? "") eqn:Ed.
     - apply str_eqb_true in Ed. subst d0. discriminate.
-    - simpl fst. simpl snd. split; [|split].
-      + exists (removelast C). split; [exact Hd | apply okl_removelast; exact O].
-      + apply okl_one. apply O. rewrite Hn. clear - NE. induction C as [|a C IH]; [contradiction|].
-        destruct C as [|a2 C']; [left; reflexivity | right; apply IH; discriminate].
-      + exact E2.
+    - simpl fst in *. simpl snd in *. split; [exact Hd|]. split; [exact Hn|]. split; [|exact E2].
+      exists (removelast C). split; [exact Hd|].
+      rewrite (no_slash_split n N). rewrite Hn. rewrite <- (app_removelast_last "" NE). exact O.
   Qed.
 
   Lemma opath_split : forall b k, good b ->
@@ -555,28 +774,143 @@ Section Under.
     rewrite split_app_slash. rewrite (split_bucket_dir b N). reflexivity.
   Qed.
 
-  (* the Name of the entry found at a cleaned path *)
-  Lemma entry_name_ok : forall b X, good b -> bad b = false -> under b X ->
-    okl (split_slash (entry_name (clean X))) .
+  Lemma under_opath : forall b k, good b -> ok (split_slash k) -> under b (bucket_dir b ++ String slash k).
+  Proof. intros b k G O. apply under_app. apply under_ext_bucket_dir; assumption. Qed.
+
+  Lemma last_in : forall (l : list string) d, l <> [] -> In (last l d) l.
   Proof.
-    intros b X G Bb U.
-    destruct (rsegs_under b X G U) as [C' [E [O F]]].
-    rewrite (clean_rooted X (under_rooted b X U)). rewrite E.
-    assert (S : split_slash ("/" ++ join_slash ("buckets" :: b :: C')) = ("" :: "buckets" :: b :: C')%list).
-    { change ("/" ++ join_slash ("buckets" :: b :: C')) with ("" ++ String slash (join_slash ("buckets" :: b :: C'))).
-      rewrite split_app_slash. rewrite split_join; [reflexivity | discriminate |].
-      pose proof (rsegs_no_slash X) as NS. rewrite E in NS. exact NS. }
-    unfold entry_name.
-    destruct (rcut_rooted (join_slash ("buckets" :: b :: C'))) as [d0 [n R]].
-    change ("/" ++ join_slash ("buckets" :: b :: C')) with (String slash (join_slash ("buckets" :: b :: C'))).
-    rewrite R. destruct (rcut_slash_spec _ _ _ R) as [_ N].
-    pose proof (rcut_split _ _ _ R) as S2.
-    change (String slash (join_slash ("buckets" :: b :: C'))) with ("/" ++ join_slash ("buckets" :: b :: C')) in S2.
-    rewrite S in S2.
-    apply okl_split_one; [exact N|].
-    assert (In n ("" :: "buckets" :: b :: C')%list) by (rewrite S2; apply in_or_app; right; left; reflexivity).
-    destruct H as [H|[H|[H|H]]]; try (subst n; assumption). apply O. exact H.
+    induction l as [|a l IH]; intros d NE; [contradiction|].
+    destruct l as [|a2 l']; [left; reflexivity | right; apply IH; discriminate].
   Qed.
+
+  (* GLookup + the UpdateEntry that follows it, for the DirAndName of an object path *)
+  Lemma dn_lookup_update_cok : forall fx b k, good b -> forbid b = false -> ok (split_slash k) ->
+    let P := bucket_dir b ++ String slash k in
+    Forall (cok b) (GLookup (fst (dir_and_name P)) (snd (dir_and_name P)) ::
+                    update_after_lookup fx (fst (dir_and_name P)) (snd (dir_and_name P))).
+  Proof.
+    intros fx b k G Bb O P.
+    pose proof (opath_split b k G) as S. fold P in S.
+    destruct (dn_under b P (split_slash k) S (split_nonempty k) O) as [Sd [Sn [Ud EP]]].
+    constructor; [apply lookup_cok; exact Ud|].
+    unfold update_after_lookup. destruct (exists_at fx _); [|constructor].
+    constructor; [|constructor]. unfold cok. simpl. left.
+    assert (UP : under b P) by (apply under_opath; assumption).
+    rewrite (join_dn_clean P (under_rooted b P UP)).
+    destruct (rsegs_under b P G UP) as [C [C' [E [OC [EC [R [F BT]]]]]]].
+    rewrite S in E. inversion E; subst C. clear E.
+    (* the entry name: the last segment of the cleaned path *)
+    set (name := entry_name (clean P)).
+    assert (SC : split_slash (clean P) = ("" :: "buckets" :: b :: C')%list).
+    { rewrite (clean_rooted P (under_rooted b P UP)). rewrite R.
+      change ("/" ++ join_slash ("buckets" :: b :: C')) with ("" ++ String slash (join_slash ("buckets" :: b :: C'))).
+      rewrite split_app_slash. rewrite split_join; [reflexivity | discriminate |].
+      pose proof (rsegs_no_slash P) as NS. rewrite R in NS. exact NS. }
+    assert (HN : name = last (b :: C') "" /\ no_slash name = true).
+    { unfold name, entry_name.
+      assert (HR : starts_with_slash (clean P) = true) by (apply clean_starts; exact (under_rooted b P UP)).
+      destruct (starts_with_slash_spec _ HR) as [r0 Er0]. rewrite Er0 in *.
+      destruct (rcut_rooted r0) as [d0 [n0 R0]]. rewrite R0.
+      destruct (rcut_slash_spec _ _ _ R0) as [_ N0].
+      pose proof (rcut_split _ _ _ R0) as S2. rewrite SC in S2.
+      split; [|exact N0].
+      change ("" :: "buckets" :: b :: C')%list with (["" ; "buckets"] ++ (b :: C'))%list in S2.
+      assert (NE : (b :: C')%list <> []) by discriminate.
+      rewrite (app_removelast_last "" NE) in S2. rewrite app_assoc in S2.
+      apply app_inj_tail in S2. symmetry. exact (proj2 S2). }
+    destruct HN as [HN NN].
+    apply under_app. exists (removelast (split_slash k)). split; [exact Sd|].
+    rewrite (no_slash_split name NN).
+    assert (OD : ok (removelast (split_slash k))).
+    { apply (ok_prefix forbid _ [last (split_slash k) ""]).
+      rewrite <- (app_removelast_last "" (split_nonempty k)). exact O. }
+    destruct C' as [|c0 C''].
+    - (* the path cleans to the bucket directory: the entry is the bucket *)
+      simpl in HN. rewrite HN. apply ok_snoc_plain; [exact OD | exact (plain_bucket b G) | intros _; exact Bb].
+    - assert (NEc : (c0 :: C'')%list <> []) by discriminate.
+      assert (HL : name = last (c0 :: C'') "").
+      { rewrite HN. reflexivity. }
+      assert (PN : plain_seg name = true).
+      { rewrite Forall_forall in F. destruct (F name) as [A [B C]].
+        - rewrite HL. apply last_in. exact NEc.
+        - unfold plain_seg. apply negb_true_iff. apply orb_false_iff.
+          split; [apply orb_false_iff; split|]; apply String.eqb_neq; assumption. }
+      apply ok_snoc_plain; [exact OD | exact PN|].
+      intros ER.
+      (* the directory part walks back to the bucket directory: the cleaned path has one segment *)
+      assert (EK : split_slash k = (removelast (split_slash k) ++ [last (split_slash k) ""])%list)
+        by (apply app_removelast_last; apply split_nonempty).
+      assert (RC : run [] (split_slash k) = norm_step true [] (last (split_slash k) "")).
+      { rewrite EK at 1. rewrite run_app. rewrite ER. reflexivity. }
+      assert (EC2 : (c0 :: C'')%list = rev (run [] (split_slash k))) by exact EC.
+      rewrite RC in EC2.
+      unfold norm_step in EC2.
+      destruct ((last (split_slash k) "" =? "") || (last (split_slash k) "" =? ".")); [discriminate|].
+      destruct (last (split_slash k) "" =? ".."); [discriminate|].
+      simpl in EC2. inversion EC2; subst c0 C''.
+      rewrite HL. simpl. exact (BT _ _ eq_refl).
+  Qed.
+
+  Lemma batch_cok : forall b key, good b -> ok (split_slash key) ->
+    cok b (let '(d, n) := batch_dir_name b key in GDelete d n false).
+  Proof.
+    intros b key G O. unfold batch_dir_name.
+    destruct (rcut_slash key) as [[d n]|] eqn:R.
+    - destruct (negb (d =? "") && negb (n =? "")).
+      + pose proof (rcut_split _ _ _ R) as S. rewrite S in O.
+        apply delete_cok.
+        destruct (rcut_slash_spec _ _ _ R) as [_ N]. rewrite (no_slash_split n N).
+        exists (split_slash d). split; [apply opath_split; exact G | exact O].
+      + apply delete_cok. apply under_ext_bucket_dir; assumption.
+    - apply delete_cok. apply under_ext_bucket_dir; assumption.
+  Qed.
+
+  Lemma batch_dir_under : forall b key, good b -> ok (split_slash key) -> under b (fst (batch_dir_name b key)).
+  Proof.
+    intros b key G O. unfold batch_dir_name.
+    destruct (rcut_slash key) as [[d n]|] eqn:R; [|apply under_bucket_dir; exact G].
+    destruct (negb (d =? "") && negb (n =? "")); [|apply under_bucket_dir; exact G].
+    pose proof (rcut_split _ _ _ R) as S. rewrite S in O. simpl fst.
+    apply under_opath; [exact G | exact (ok_prefix forbid _ _ O)].
+  Qed.
+
+  (* doDeleteEmptyDirectories never leaves the bucket directory *)
+  Lemma purge_chain_cok : forall b fuel dir, good b -> under b dir -> Forall (cok b) (purge_chain fuel dir).
+  Proof.
+    intros b fuel. induction fuel as [|f IH]; intros dir G U; simpl; [constructor|].
+    pose proof U as U0. apply under_spec in U. destruct U as [C [E O]].
+    destruct (dir_and_name dir) as [parent name] eqn:DN.
+    destruct (parent =? buckets_path) eqn:EP; [constructor|].
+    assert (NE : C <> []).
+    { intros HC. subst C. apply str_eqb_false in EP. apply EP.
+      assert (HP : starts_with_slash dir = true) by exact (split_head_rooted _ _ _ E).
+      destruct (starts_with_slash_spec _ HP) as [r Er]. subst dir.
+      destruct (rcut_rooted r) as [d0 [n R]]. unfold dir_and_name in DN. rewrite R in DN.
+      pose proof (rcut_split _ _ _ R) as S. rewrite E in S.
+      change ["" ; "buckets"; b] with (["" ; "buckets"] ++ [b])%list in S. apply app_inj_tail in S. destruct S as [S1 S2].
+      assert (d0 = "/buckets") by (apply split_inj; rewrite <- S1; reflexivity). subst d0.
+      simpl in DN. inversion DN. reflexivity. }
+    destruct (dn_under b dir C E NE O) as [_ [_ [Ud _]]]. rewrite DN in Ud. simpl in Ud.
+    constructor; [|constructor].
+    - apply lookup_cok; exact Ud.
+    - apply delete_cok; exact Ud.
+    - apply IH; [exact G | exact (under_ext_under b parent _ Ud)].
+  Qed.
+
+  Lemma purge_candidates_cok : forall b keys, good b -> (forall k, In k keys -> ok (split_slash k)) ->
+    Forall (cok b) (purge_candidates b keys).
+  Proof.
+    intros b keys G H. unfold purge_candidates. apply Forall_forall. intros c Hc.
+    apply in_flat_map in Hc. destruct Hc as [k [Hk Hc]].
+    pose proof (purge_chain_cok b (S (List.length (split_slash (fst (batch_dir_name b k))))) (fst (batch_dir_name b k)) G
+                 (batch_dir_under b k G (H k Hk))) as F.
+    rewrite Forall_forall in F. apply F. exact Hc.
+  Qed.
+
+  Lemma within_forall : forall b l, Forall (cok b) l -> Forall (fun cc => cok (fst cc) (snd cc)) (within b l).
+  Proof. intros b l H. unfold within. apply Forall_forall. intros cc Hc. apply in_map_iff in Hc. destruct Hc as [c [E Hc]]. subst cc. simpl. rewrite Forall_forall in H. apply H. exact Hc. Qed.
+
+  Definition cokc (cc : ccall) : Prop := cok (fst cc) (snd cc).
 
   (* ----- percent decoding ----- *)
   Lemma pct_decode_nopct : forall a s, no_pct a = true ->
@@ -598,115 +932,34 @@ Section Under.
   Lemma no_pct_bucket_dir : forall b, no_pct b = true -> no_pct (bucket_dir b) = true.
   Proof. intros b H. unfold bucket_dir, buckets_path. apply no_pct_app; [reflexivity|]. apply no_pct_app; [reflexivity | exact H]. Qed.
 
-  (* decoding a path  <bucket dir><tail starting with "/">  keeps the bucket directory *)
-  Lemma decode_under : forall b pre tail r, good b -> under b pre -> no_pct pre = true ->
-    pct_decode (pre ++ String slash tail) = Some r -> okl (split_slash r) -> under b r.
+  (* decoding  <a directory under the bucket>/<tail>  keeps the directory *)
+  Lemma decode_under : forall b pre tail r, good b -> no_pct pre = true ->
+    pct_decode (pre ++ String slash tail) = Some r ->
+    under_ext b pre (split_slash (dec1 tail)) -> under b r.
   Proof.
-    intros b pre tail r G U NP D O.
+    intros b pre tail r G NP D U.
     rewrite (pct_decode_nopct pre _ NP) in D. rewrite pct_decode_slash in D.
+    unfold dec1 in U.
     destruct (pct_decode tail) as [t|]; [|discriminate]. inversion D; subst r.
-    apply under_app; [exact U|]. rewrite split_app_slash in O. exact (okl_app_r _ _ O).
+    apply under_app. exact U.
   Qed.
+
+  Lemma dec1_slash : forall k, dec1 (String slash k) = String slash (dec1 k).
+  Proof. intros k. unfold dec1. rewrite pct_decode_slash. destruct (pct_decode k); reflexivity. Qed.
 
   (* ----- object routes ----- *)
-  Lemma norm_object_form : forall o, okl (split_slash o) ->
-    exists k, norm_object o = String slash k /\ okl (split_slash k).
+  Lemma norm_object_form : forall o, exists k, norm_object o = String slash k.
   Proof.
-    intros o O. unfold norm_object. destruct (starts_with_slash o) eqn:E.
-    - destruct (starts_with_slash_spec _ E) as [r Er]. subst o. exists r. split; [reflexivity|].
-      change (String slash r) with ("" ++ String slash r) in O. rewrite split_app_slash in O. exact (okl_app_r _ _ O).
-    - exists o. split; [reflexivity | exact O].
+    intros o. unfold norm_object. destruct (starts_with_slash o) eqn:E.
+    - destruct (starts_with_slash_spec _ E) as [r Er]. subst o. exists r. reflexivity.
+    - exists o. reflexivity.
   Qed.
 
-  Lemma under_opath : forall b k, good b -> okl (split_slash k) -> under b (bucket_dir b ++ String slash k).
-  Proof. intros b k G O. apply under_app; [apply under_bucket_dir; exact G | exact O]. Qed.
-
-  (* GLookup + the UpdateEntry that follows it, for the DirAndName of an object path *)
-  Lemma dn_lookup_update_cok : forall fx b k, good b -> bad b = false -> okl (split_slash k) ->
-    let P := bucket_dir b ++ String slash k in
-    Forall (cok b) (GLookup (fst (dir_and_name P)) (snd (dir_and_name P)) ::
-                    update_after_lookup fx (fst (dir_and_name P)) (snd (dir_and_name P))).
+  Lemma ok_slash : forall k, ok (split_slash (String slash k)) -> ok (split_slash k).
   Proof.
-    intros fx b k G Bb O P.
-    pose proof (opath_split b k G) as S.
-    destruct (dn_under b P (split_slash k) S (split_nonempty k) O) as [Ud [On EP]].
-    assert (Hn : okl (split_slash (snd (dir_and_name P)))).
-    { assert (N : no_slash (snd (dir_and_name P)) = true).
-      { unfold dir_and_name. destruct (rcut_slash P) as [[d0 n]|] eqn:R; [|reflexivity].
-        destruct (rcut_slash_spec _ _ _ R) as [_ N]. destruct (d0 =? ""); exact N. }
-      rewrite (no_slash_split _ N). exact On. }
-    constructor; [apply lookup_cok; assumption|].
-    unfold update_after_lookup. destruct (exists_at fx _); [|constructor].
-    constructor; [|constructor]. unfold cok. simpl. left.
-    apply under_app; [exact Ud|].
-    rewrite (join_dn_clean P (under_rooted b P (under_opath b k G O))).
-    apply (entry_name_ok b); [exact G | exact Bb | apply under_opath; assumption].
+    intros k H. change (String slash k) with ("" ++ String slash k) in H. rewrite split_app_slash in H.
+    simpl in H. exact (proj1 (ok_cons_skip forbid "" _ eq_refl) H).
   Qed.
-
-  Lemma batch_cok : forall b key, good b -> okl (split_slash key) ->
-    cok b (let '(d, n) := batch_dir_name b key in GDelete d n false).
-  Proof.
-    intros b key G O. unfold batch_dir_name.
-    destruct (rcut_slash key) as [[d n]|] eqn:R.
-    - destruct (negb (d =? "") && negb (n =? "")).
-      + pose proof (rcut_split _ _ _ R) as S. rewrite S in O.
-        apply delete_cok.
-        * apply under_opath; [exact G | exact (okl_app_l _ _ O)].
-        * destruct (rcut_slash_spec _ _ _ R) as [_ N]. rewrite (no_slash_split n N). exact (okl_app_r _ _ O).
-      + apply delete_cok; [apply under_bucket_dir; exact G | exact O].
-    - apply delete_cok; [apply under_bucket_dir; exact G | exact O].
-  Qed.
-
-  Lemma batch_dir_under : forall b key, good b -> okl (split_slash key) -> under b (fst (batch_dir_name b key)).
-  Proof.
-    intros b key G O. unfold batch_dir_name.
-    destruct (rcut_slash key) as [[d n]|] eqn:R; [|apply under_bucket_dir; exact G].
-    destruct (negb (d =? "") && negb (n =? "")); [|apply under_bucket_dir; exact G].
-    pose proof (rcut_split _ _ _ R) as S. rewrite S in O. simpl fst.
-    apply under_opath; [exact G | exact (okl_app_l _ _ O)].
-  Qed.
-
-  (* doDeleteEmptyDirectories never leaves the bucket directory *)
-  Lemma purge_chain_cok : forall b fuel dir, good b -> under b dir -> Forall (cok b) (purge_chain fuel dir).
-  Proof.
-    intros b fuel. induction fuel as [|f IH]; intros dir G U; simpl; [constructor|].
-    destruct U as [C [E O]].
-    destruct (dir_and_name dir) as [parent name] eqn:DN.
-    destruct (parent =? buckets_path) eqn:EP; [constructor|].
-    assert (NE : C <> []).
-    { intros HC. subst C. apply str_eqb_false in EP. apply EP.
-      assert (HP : starts_with_slash dir = true) by exact (split_head_rooted _ _ _ E).
-      destruct (starts_with_slash_spec _ HP) as [r Er]. subst dir.
-      destruct (rcut_rooted r) as [d0 [n R]]. unfold dir_and_name in DN. rewrite R in DN.
-      pose proof (rcut_split _ _ _ R) as S. rewrite E in S.
-      change ["" ; "buckets"; b] with (["" ; "buckets"] ++ [b])%list in S. apply app_inj_tail in S. destruct S as [S1 S2].
-      assert (d0 = "/buckets") by (apply split_inj; rewrite <- S1; reflexivity). subst d0.
-      simpl in DN. inversion DN. reflexivity. }
-    destruct (dn_under b dir C E NE O) as [Ud [On EP2]]. rewrite DN in Ud, On, EP2. simpl in Ud, On, EP2.
-    constructor.
-    - apply delete_cok; [exact Ud|].
-      assert (N : no_slash name = true).
-      { unfold dir_and_name in DN. destruct (rcut_slash dir) as [[d0 n]|] eqn:R.
-        - destruct (rcut_slash_spec _ _ _ R) as [_ N]. destruct (d0 =? ""); inversion DN; subst; exact N.
-        - inversion DN. reflexivity. }
-      rewrite (no_slash_split _ N). exact On.
-    - apply IH; assumption.
-  Qed.
-
-  Lemma purge_candidates_cok : forall b keys, good b -> (forall k, In k keys -> okl (split_slash k)) ->
-    Forall (cok b) (purge_candidates b keys).
-  Proof.
-    intros b keys G H. unfold purge_candidates. apply Forall_forall. intros c Hc.
-    apply in_flat_map in Hc. destruct Hc as [k [Hk Hc]].
-    pose proof (purge_chain_cok b (S (List.length (split_slash (fst (batch_dir_name b k))))) (fst (batch_dir_name b k)) G
-                 (batch_dir_under b k G (H k Hk))) as F.
-    rewrite Forall_forall in F. apply F. exact Hc.
-  Qed.
-
-  Lemma within_forall : forall b l, Forall (cok b) l -> Forall (fun cc => cok (fst cc) (snd cc)) (within b l).
-  Proof. intros b l H. unfold within. apply Forall_forall. intros cc Hc. apply in_map_iff in Hc. destruct Hc as [c [E Hc]]. subst cc. simpl. rewrite Forall_forall in H. apply H. exact Hc. Qed.
-
-  Definition cokc (cc : ccall) : Prop := cok (fst cc) (snd cc).
 
   Lemma src_object_form : forall s, exists o, snd (src_bucket_object s) = String slash o.
   Proof.
@@ -715,42 +968,17 @@ Section Under.
     - exists "". reflexivity.
   Qed.
 
-  Definition obj_hyp (q : req) : Prop :=
-    okl (split_slash (q_object q)) /\
-    okl (split_slash (dec1 (bucket_dir (q_bucket q) ++ norm_object (q_object q)))) /\
-    (q_src q <> "" -> good (src_bucket q) /\ okl (split_slash (dec1 (src_path q)))) /\
-    (forall k, In k (q_keys q) -> okl (split_slash k)).
-
-  (* the source side of the copy handlers *)
-  Lemma copy_src_cok : forall q sp,
-    (q_src q <> "" -> good (src_bucket q) /\ okl (split_slash (dec1 (src_path q)))) ->
-    (src_bucket q =? "") = false ->
-    pct_decode (src_path q) = Some sp ->
-    Forall cokc (within (src_bucket q) (http_calls MGet sp)).
-  Proof.
-    intros q sp HS NB D.
-    assert (NS : q_src q <> "").
-    { intros E. unfold src_bucket in NB. rewrite E in NB. discriminate. }
-    destruct (HS NS) as [G O].
-    apply within_forall. apply http_calls_cok.
-    unfold dec1 in O. rewrite D in O.
-    unfold src_path in D. unfold src_bucket in G.
-    destruct (src_object_form (dec1 (q_src q))) as [o Eo].
-    destruct (src_bucket_object (dec1 (q_src q))) as [sb so] eqn:ES. simpl in Eo, G. subst so.
-    unfold src_bucket. rewrite ES. simpl fst.
-    destruct (good_spec sb G) as [_ [_ [_ [_ NP]]]].
-    exact (decode_under sb (bucket_dir sb) o sp G (under_bucket_dir sb G) (no_pct_bucket_dir sb NP) D O).
-  Qed.
-
-  Lemma dst_decode_cok : forall b k dp, good b ->
-    okl (split_slash (dec1 (bucket_dir b ++ String slash k))) ->
+  (* PUT / GET of  <bucket dir>/<k decoded once more>  (the copy handlers) *)
+  Lemma decoded_http_cok : forall b m k dp, good b ->
+    ok (split_slash (dec1 (String slash k))) ->
     pct_decode (bucket_dir b ++ String slash k) = Some dp ->
-    Forall cokc (within b (http_calls MPut dp)).
+    Forall cokc (within b (http_calls m dp)).
   Proof.
-    intros b k dp G O D. apply within_forall. apply http_calls_cok.
-    unfold dec1 in O. rewrite D in O.
+    intros b m k dp G O D. apply within_forall. apply http_calls_cok.
     destruct (good_spec b G) as [_ [_ [_ [_ NP]]]].
-    exact (decode_under b (bucket_dir b) k dp G (under_bucket_dir b G) (no_pct_bucket_dir b NP) D O).
+    apply (decode_under b (bucket_dir b) k dp G (no_pct_bucket_dir b NP) D).
+    rewrite dec1_slash in O. apply ok_slash in O.
+    apply under_ext_bucket_dir; assumption.
   Qed.
 
   Lemma gcreate_mkdir_eq : forall b k, buckets_path ++ "/" ++ (b ++ String slash k) = bucket_dir b ++ String slash k.
@@ -759,65 +987,145 @@ Section Under.
     rewrite (append_assoc "/buckets" ("/" ++ b) (String slash k)). reflexivity.
   Qed.
 
-  Lemma calls_object_cok : forall fx q, good (q_bucket q) -> bad (q_bucket q) = false ->
-    object_route (q_route q) = true -> obj_hyp q -> Forall cokc (calls fx q).
+  Definition rels_ok (q : req) : Prop := forall s, In s (rels q) -> ok (split_slash s).
+
+  Lemma calls_object_cok : forall fx q, good (q_bucket q) -> forbid (q_bucket q) = false ->
+    object_route (q_route q) = true -> rels_ok q -> src_bad q = false -> req_noslash q = false ->
+    Forall cokc (calls fx q).
   Proof.
-    intros fx q G Bb OR [HO [HOD [HS HK]]].
-    destruct (norm_object_form (q_object q) HO) as [k [Ek Ok]].
-    pose proof (under_opath (q_bucket q) k G Ok) as UO.
-    pose proof (dn_lookup_update_cok fx (q_bucket q) k G Bb Ok) as DLU. cbv zeta in DLU.
+    intros fx q G Bb OR HR HS HP.
+    destruct (norm_object_form (q_object q)) as [k Ek].
+    unfold rels_ok, rels, rel_object in HR. unfold src_bad in HS. unfold req_noslash in HP.
     unfold calls. rewrite Ek in *.
     destruct (q_route q) eqn:ER; try discriminate OR.
     - (* RPut *)
+      assert (Ok : ok (split_slash k)) by (apply ok_slash; apply HR; left; reflexivity).
+      pose proof (under_opath (q_bucket q) k G Ok) as UO.
       destruct (ends_with_slash (String slash k)).
       + apply within_forall. constructor; [|constructor]. unfold cok, effective. left.
         rewrite gcreate_mkdir_eq. exact UO.
       + apply within_forall. apply http_calls_cok. exact UO.
     - (* RGet *)
+      assert (Ok : ok (split_slash k)) by (apply ok_slash; apply HR; left; reflexivity).
+      pose proof (under_opath (q_bucket q) k G Ok) as UO.
       destruct (ends_with_slash (String slash k)); [constructor|].
       apply within_forall. apply http_calls_cok. exact UO.
-    - apply within_forall. apply http_calls_cok. exact UO.
-    - apply within_forall. apply http_calls_cok. exact UO.
+    - assert (Ok : ok (split_slash k)) by (apply ok_slash; apply HR; left; reflexivity).
+      apply within_forall. apply http_calls_cok. exact (under_opath (q_bucket q) k G Ok).
+    - assert (Ok : ok (split_slash k)) by (apply ok_slash; apply HR; left; reflexivity).
+      apply within_forall. apply http_calls_cok. exact (under_opath (q_bucket q) k G Ok).
     - (* RBatchDelete *)
       apply within_forall. apply Forall_forall. intros c Hc. apply in_map_iff in Hc.
-      destruct Hc as [key [E Hk]]. subst c. apply batch_cok; [exact G | apply HK; exact Hk].
+      destruct Hc as [key [E Hk]]. subst c. apply batch_cok; [exact G | apply HR; exact Hk].
     - (* RCopy *)
-      fold (src_bucket q).
-      destruct (src_bucket_object (match pct_decode (q_src q) with Some s => s | None => q_src q end)) as [sb so] eqn:ES.
-      assert (Esb : src_bucket q = sb) by (unfold src_bucket, dec1; rewrite ES; reflexivity).
-      assert (Esp : src_path q = bucket_dir sb ++ so) by (unfold src_path, dec1; rewrite ES; reflexivity).
+      assert (Ok : ok (split_slash k)) by (apply ok_slash; apply HR; left; reflexivity).
+      assert (Od : ok (split_slash (dec1 (String slash k)))) by (apply HR; right; left; reflexivity).
+      assert (Os : ok (split_slash (dec1 (src_rel q)))) by (apply HR; right; right; left; reflexivity).
+      pose proof (dn_lookup_update_cok fx (q_bucket q) k G Bb Ok) as DLU. cbv zeta in DLU.
+      fold (src_bucket q) in *.
+      change (match pct_decode (q_src q) with Some s => s | None => q_src q end) with (dec1 (q_src q)).
+      unfold src_rel in Os. unfold src_bucket in HS.
+      destruct (src_object_form (dec1 (q_src q))) as [o Eo].
+      destruct (src_bucket_object (dec1 (q_src q))) as [sb so] eqn:ES. simpl in Eo, HS, Os. subst so.
       match goal with |- Forall cokc (if ?c then _ else _) => destruct c end.
       + destruct (dir_and_name (bucket_dir (q_bucket q) ++ String slash k)) as [d n] eqn:DN.
         apply within_forall. simpl in DLU. exact DLU.
-      + destruct (sb =? "") eqn:E1; [constructor|].
+      + destruct (sb =? "") eqn:E1; [constructor|]. simpl in HS.
         match goal with |- Forall cokc (if ?c then _ else _) => destruct c end; [constructor|].
-        destruct (pct_decode (bucket_dir sb ++ so)) as [sp|] eqn:D1; [|constructor].
+        destruct (pct_decode (bucket_dir sb ++ String slash o)) as [sp|] eqn:D1; [|constructor].
         apply Forall_app. split.
-        * rewrite <- Esb. apply (copy_src_cok q sp HS); [rewrite Esb; exact E1 | rewrite Esp; exact D1].
-        * destruct (pct_decode (bucket_dir (q_bucket q) ++ String slash k)) as [dp|] eqn:D2; [|constructor].
-          exact (dst_decode_cok (q_bucket q) k dp G HOD D2).
+        * exact (decoded_http_cok sb MGet o sp HS Os D1).
+        * destruct (http_get_ok fx sp); [|constructor].
+          destruct (pct_decode (bucket_dir (q_bucket q) ++ String slash k)) as [dp|] eqn:D2; [|constructor].
+          exact (decoded_http_cok (q_bucket q) MPut k dp G Od D2).
     - (* RGetTag *)
+      assert (Ok : ok (split_slash k)) by (apply ok_slash; apply HR; left; reflexivity).
+      pose proof (dn_lookup_update_cok fx (q_bucket q) k G Bb Ok) as DLU. cbv zeta in DLU.
       destruct (dir_and_name (bucket_dir (q_bucket q) ++ String slash k)) as [d n] eqn:DN.
       apply within_forall. simpl in DLU. inversion DLU; subst. constructor; [assumption | constructor].
     - (* RPutTag *)
+      assert (Ok : ok (split_slash k)) by (apply ok_slash; apply HR; left; reflexivity).
+      pose proof (dn_lookup_update_cok fx (q_bucket q) k G Bb Ok) as DLU. cbv zeta in DLU.
       destruct (dir_and_name (bucket_dir (q_bucket q) ++ String slash k)) as [d n] eqn:DN.
       apply within_forall. simpl in DLU. exact DLU.
     - (* RDelTag *)
+      assert (Ok : ok (split_slash k)) by (apply ok_slash; apply HR; left; reflexivity).
+      pose proof (dn_lookup_update_cok fx (q_bucket q) k G Bb Ok) as DLU. cbv zeta in DLU.
       destruct (dir_and_name (bucket_dir (q_bucket q) ++ String slash k)) as [d n] eqn:DN.
       apply within_forall. simpl in DLU. inversion DLU; subst. constructor; [assumption | constructor].
+    - (* RPostPolicy *)
+      apply within_forall. apply http_calls_cok.
+      destruct (q_object q =? "") eqn:E0.
+      + apply str_eqb_true in E0. rewrite E0. rewrite append_nil_r. apply under_bucket_dir. exact G.
+      + simpl in HP. apply negb_false_iff in HP.
+        destruct (starts_with_slash_spec _ HP) as [r Er].
+        unfold norm_object in Ek. rewrite HP in Ek. rewrite Er in Ek. inversion Ek; subst k.
+        rewrite Er. apply under_opath; [exact G|]. apply ok_slash. apply HR. left. reflexivity.
   Qed.
 
-  (* ----- multipart routes ----- *)
-  Lemma strip_one_spec : forall s, ends_with_slash s = true -> s = strip_one_trailing_slash s ++ "/".
+  (* ----- a directory string with one trailing "/" removed ----- *)
+  Lemma strip_under_ext : forall b t R, good b -> ok (split_slash t ++ R) ->
+    under_ext b (let d := bucket_dir b ++ "/" ++ t in
+                 if ends_with_slash d then strip_one_trailing_slash d else d) R.
   Proof.
-    induction s as [|c r IH]; intros H; [discriminate|].
-    destruct r as [|c2 r2].
-    - simpl in H. apply ascii_eqb_true in H. subst c. reflexivity.
-    - change (ends_with_slash (String c (String c2 r2))) with (ends_with_slash (String c2 r2)) in H.
-      change (String c (String c2 r2) = String c (strip_one_trailing_slash (String c2 r2) ++ "/")).
-      rewrite <- (IH H). reflexivity.
+    intros b t R G O. cbv zeta.
+    change (bucket_dir b ++ "/" ++ t) with (bucket_dir b ++ String slash t).
+    destruct (ends_with_slash (bucket_dir b ++ String slash t)) eqn:EE.
+    - pose proof (strip_one_spec _ EE) as SS.
+      pose proof (opath_split b t G) as E.
+      rewrite SS in E.
+      change (strip_one_trailing_slash (bucket_dir b ++ String slash t) ++ "/")
+        with (strip_one_trailing_slash (bucket_dir b ++ String slash t) ++ String slash "") in E.
+      rewrite split_app_slash in E. simpl (split_slash "") in E.
+      change ("" :: "buckets" :: b :: split_slash t)%list with (["" ; "buckets"; b] ++ split_slash t)%list in E.
+      rewrite (app_removelast_last "" (split_nonempty t)) in E. rewrite app_assoc in E.
+      apply app_inj_tail in E. destruct E as [E1 E2].
+      exists (removelast (split_slash t)). split; [exact E1|].
+      rewrite (app_removelast_last "" (split_nonempty t)) in O. rewrite <- E2 in O.
+      rewrite <- app_assoc in O. simpl in O.
+      unfold okw. unfold okw in O.
+      rewrite (esc_mid_skip forbid (removelast (split_slash t)) "" R [] eq_refl) in O. exact O.
+    - exists (split_slash t). split; [apply opath_split; exact G | exact O].
   Qed.
 
+  (* ----- listing: the marker chain ----- *)
+  Lemma marker_heads_cok : forall b fuel dir marker, under_ext b dir (split_slash marker) ->
+    Forall (cok b) (map GList (marker_heads fuel dir marker)).
+  Proof.
+    intros b fuel. induction fuel as [|f IH]; intros dir marker U.
+    - simpl. constructor; [|constructor]. unfold cok, effective. left. exact (under_ext_under b dir _ U).
+    - simpl. destruct (cut_slash marker) as [[sub rest]|] eqn:EC.
+      + rewrite map_app. apply Forall_app. split.
+        * apply IH. destruct (cut_slash_spec _ _ _ EC) as [EM NS]. rewrite EM in U.
+          rewrite split_app_slash in U. rewrite (no_slash_split sub NS) in U.
+          change (dir ++ "/" ++ sub) with (dir ++ String slash sub).
+          apply under_ext_app. rewrite (no_slash_split sub NS). exact U.
+        * simpl. constructor; [|constructor]. unfold cok, effective. left. exact (under_ext_under b dir _ U).
+      + simpl. constructor; [|constructor]. unfold cok, effective. left. exact (under_ext_under b dir _ U).
+  Qed.
+
+  Lemma bucket_entry_lookup_cok : forall b, good b -> cok b (GLookup buckets_path b).
+  Proof.
+    intros b G. unfold cok. simpl. right. exists (bucket_dir b). split; [apply under_bucket_dir; exact G|]. left.
+    destruct (good_spec b G) as [B1 _]. unfold join_path.
+    destruct (b =? "") eqn:E; [apply str_eqb_true in E; contradiction|]. reflexivity.
+  Qed.
+
+  Lemma bucket_entry_delete_cok : forall b r, good b -> cok b (GDelete buckets_path b r).
+  Proof.
+    intros b r G. unfold cok. simpl. right. exists (bucket_dir b). split; [apply under_bucket_dir; exact G|]. left.
+    destruct (good_spec b G) as [B1 _]. unfold join_path.
+    destruct (b =? "") eqn:E; [apply str_eqb_true in E; contradiction|]. reflexivity.
+  Qed.
+
+  Lemma bucket_dn_lookup_cok : forall b, good b ->
+    cok b (GLookup (fst (dir_and_name (buckets_path ++ "/" ++ b))) (snd (dir_and_name (buckets_path ++ "/" ++ b)))).
+  Proof.
+    intros b G. unfold cok. simpl effective. right. exists (bucket_dir b). split; [apply under_bucket_dir; exact G|]. left.
+    apply (join_dn_clean (bucket_dir b)). reflexivity.
+  Qed.
+
+  (* ----- multipart, listing and bucket routes ----- *)
   Lemma last_nonempty_in : forall l s, last_nonempty l = Some s -> In s l.
   Proof.
     intros l s H. unfold last_nonempty in H.
@@ -828,190 +1136,228 @@ Section Under.
     destruct (K l None H) as [K1|K1]; [exact K1 | discriminate].
   Qed.
 
-  Lemma okl_trim : forall s, okl (split_slash s) -> okl (split_slash (trim_leading_slash s)).
-  Proof.
-    intros s O. destruct s as [|c r]; [exact O|]. simpl. destruct (Ascii.eqb c slash) eqn:E; [|exact O].
-    apply ascii_eqb_true in E. subst c.
-    change (String slash r) with ("" ++ String slash r) in O. rewrite split_app_slash in O. exact (okl_app_r _ _ O).
-  Qed.
+  Hypothesis forbid_dotuploads : forbid ".uploads" = false.
 
-  Lemma okl_split_join : forall L, okl L -> Forall (fun s => no_slash s = true) L -> okl (split_slash (join_slash L)).
-  Proof.
-    intros L O N. destruct L as [|a L'].
-    - simpl. apply okl_one. exact bad_empty.
-    - rewrite split_join; [exact O | discriminate | exact N].
-  Qed.
+  Lemma ok_uploads_cons : forall R, ok (".uploads" :: R) -> True.
+  Proof. trivial. Qed.
 
-  Lemma filter_keep_props : forall S, okl S -> Forall (fun s => no_slash s = true) S ->
-    okl (filter keep S) /\ Forall (fun s => no_slash s = true) (filter keep S).
-  Proof.
-    intros S O N. split.
-    - intros s Hs. apply filter_In in Hs. apply O. exact (proj1 Hs).
-    - apply Forall_forall. intros s Hs. apply filter_In in Hs. rewrite Forall_forall in N. apply N. exact (proj1 Hs).
-  Qed.
+  Lemma split_uploads_rel : forall x, split_slash (".uploads/" ++ x) = (".uploads" :: split_slash x)%list.
+  Proof. intros x. change (".uploads/" ++ x) with (".uploads" ++ String slash x). rewrite split_app_slash. reflexivity. Qed.
 
-  Lemma okl_clean_any : forall x, okl (split_slash x) -> okl (split_slash (clean x)).
-  Proof.
-    intros x O.
-    assert (N : Forall (fun s => no_slash s = true) (split_slash x)) by (apply Forall_forall; intros s Hs; exact (split_segs_no_slash _ _ Hs)).
-    destruct (filter_keep_props _ O N) as [OL NL].
-    unfold clean. destruct (starts_with_slash x).
-    - rewrite norm_nodd by (apply okl_nodd; exact O).
-      change ("/" ++ join_slash (filter keep (split_slash x))) with ("" ++ String slash (join_slash (filter keep (split_slash x)))).
-      rewrite split_app_slash. apply okl_app; [apply okl_one; exact bad_empty | apply okl_split_join; assumption].
-    - rewrite norm_nodd by (apply okl_nodd; exact O).
-      destruct (filter keep (split_slash x)) as [|a L'] eqn:EL.
-      + apply okl_one. exact bad_dot.
-      + rewrite <- EL. apply okl_split_join; rewrite EL; assumption.
-  Qed.
-
-  Lemma complete_under : forall b key, good b -> okl (split_slash key) ->
-    under b (fst (complete_dir_name b key) ++ String slash (snd (complete_dir_name b key))).
-  Proof.
-    intros b key G O. unfold complete_dir_name. cbv zeta. cbn [fst snd].
-    (* the entry name *)
-    assert (OE : okl (split_slash (path_base key))).
-    { unfold path_base. destruct (key =? ""); [apply okl_one; exact bad_dot|].
-      destruct (last_nonempty (split_slash key)) as [s|] eqn:EL.
-      - pose proof (last_nonempty_in _ _ EL) as Hin.
-        rewrite (no_slash_split s (split_segs_no_slash _ _ Hin)). apply okl_one. apply O. exact Hin.
-      - simpl. intros s [E|[E|[]]]; subst s; exact bad_empty. }
-    (* the directory part *)
-    assert (OD : okl (split_slash (path_dir key))).
-    { unfold path_dir. destruct (rcut_slash key) as [[d0 n]|] eqn:R; [|apply okl_one; exact bad_dot].
-      apply okl_clean_any. change (d0 ++ "/") with (d0 ++ String slash "").
-      rewrite split_app_slash. pose proof (rcut_split _ _ _ R) as S. rewrite S in O.
-      apply okl_app; [exact (okl_app_l _ _ O) | apply okl_one; exact bad_empty]. }
-    set (dd := trim_leading_slash (if path_dir key =? "." then "" else path_dir key)).
-    assert (ODD : okl (split_slash dd)).
-    { unfold dd. apply okl_trim. destruct (path_dir key =? "."); [apply okl_one; exact bad_empty | exact OD]. }
-    assert (UX : under b (bucket_dir b ++ "/" ++ dd)) by (apply under_opath; assumption).
-    apply under_app; [|exact OE].
-    destruct (ends_with_slash (bucket_dir b ++ "/" ++ dd)) eqn:EE; [|exact UX].
-    pose proof (strip_one_spec _ EE) as SS.
-    destruct UX as [C [E OC]].
-    assert (E' := E). change (bucket_dir b ++ "/" ++ dd) with (bucket_dir b ++ String slash dd) in E'.
-    rewrite (opath_split b dd G) in E'. inversion E'; subst C.
-    rewrite SS in E. change (strip_one_trailing_slash (bucket_dir b ++ "/" ++ dd) ++ "/")
-      with (strip_one_trailing_slash (bucket_dir b ++ "/" ++ dd) ++ String slash "") in E.
-    rewrite split_app_slash in E. simpl (split_slash "") in E.
-    change ("" :: "buckets" :: b :: split_slash dd)%list with (["" ; "buckets"; b] ++ split_slash dd)%list in E.
-    rewrite (app_removelast_last "" (split_nonempty dd)) in E. rewrite app_assoc in E.
-    apply app_inj_tail in E. destruct E as [E1 _].
-    exists (removelast (split_slash dd)). split; [exact E1 | apply okl_removelast; exact ODD].
-  Qed.
-
-  Definition mp_hyp (q : req) : Prop :=
-    okl (split_slash (q_upload q)) /\
-    okl (split_slash (dec1 (uploads_dir (q_bucket q) ++ "/" ++ q_upload q ++ "/" ++ q_part q))).
-
-  Hypothesis bad_dotuploads : bad ".uploads" = false.
-  Hypothesis bad_uuid : bad "UUID" = false.
-
-  Lemma under_uploads : forall b, good b -> under b (uploads_dir b).
+  Lemma uploads_dir_split : forall b, good b -> split_slash (uploads_dir b) = ["" ; "buckets"; b; ".uploads"].
   Proof.
     intros b G. unfold uploads_dir. change (bucket_dir b ++ "/.uploads") with (bucket_dir b ++ String slash ".uploads").
-    apply under_opath; [exact G | apply okl_one; exact bad_dotuploads].
+    rewrite (opath_split b ".uploads" G). reflexivity.
   Qed.
+
+  Lemma under_ext_uploads : forall b R, good b -> ok (".uploads" :: R) -> under_ext b (uploads_dir b) R.
+  Proof. intros b R G O. exists [".uploads"]. split; [apply uploads_dir_split; exact G | exact O]. Qed.
 
   Lemma no_pct_uploads : forall b, no_pct b = true -> no_pct (uploads_dir b) = true.
   Proof. intros b H. unfold uploads_dir. apply no_pct_app; [apply no_pct_bucket_dir; exact H | reflexivity]. Qed.
 
+  Lemma dec1_uploads_rel : forall x, dec1 (".uploads/" ++ x) = ".uploads/" ++ dec1 x.
+  Proof.
+    intros x. unfold dec1. rewrite (pct_decode_nopct ".uploads/" x eq_refl). destruct (pct_decode x); reflexivity.
+  Qed.
+
   Lemma part_path_cok : forall b u p dp, good b ->
-    okl (split_slash (dec1 (uploads_dir b ++ "/" ++ u ++ "/" ++ p))) ->
+    ok (split_slash (dec1 (".uploads/" ++ u ++ "/" ++ p))) ->
     pct_decode (uploads_dir b ++ "/" ++ u ++ "/" ++ p) = Some dp ->
     Forall (cok b) (http_calls MPut dp).
   Proof.
     intros b u p dp G O D. apply http_calls_cok.
-    unfold dec1 in O. rewrite D in O.
     destruct (good_spec b G) as [_ [_ [_ [_ NP]]]].
-    exact (decode_under b (uploads_dir b) (u ++ "/" ++ p) dp G (under_uploads b G) (no_pct_uploads b NP) D O).
+    apply (decode_under b (uploads_dir b) (u ++ "/" ++ p) dp G (no_pct_uploads b NP) D).
+    rewrite dec1_uploads_rel in O. rewrite split_uploads_rel in O.
+    apply under_ext_uploads; assumption.
   Qed.
 
-  Lemma calls_multipart_cok : forall fx q, good (q_bucket q) -> bad (q_bucket q) = false ->
-    object_route (q_route q) = false -> obj_hyp q -> mp_hyp q -> Forall cokc (calls fx q).
+  Definition route_needs_plain_fx (r : route) : bool := match r with RList _ _ _ _ => true | _ => false end.
+
+  Lemma calls_other_cok : forall fx q, good (q_bucket q) ->
+    object_route (q_route q) = false -> rels_ok q -> src_bad q = false -> Forall cokc (calls fx q).
   Proof.
-    intros fx q G Bb OR [HO [HOD [HS HK]]] [HU HUD].
-    destruct (norm_object_form (q_object q) HO) as [k [Ek Ok]].
-    pose proof (under_uploads (q_bucket q) G) as UU.
+    intros fx q G OR HR HS.
+    destruct (norm_object_form (q_object q)) as [k Ek].
+    unfold rels_ok, rels, up_rel, part_rel in HR. unfold src_bad in HS.
     unfold calls. rewrite Ek in *.
     destruct (q_route q) eqn:ER; try discriminate OR.
     - (* RCopyPart *)
-      fold (src_bucket q).
-      destruct (src_bucket_object (match pct_decode (q_src q) with Some s => s | None => q_src q end)) as [sb so] eqn:ES.
-      assert (Esb : src_bucket q = sb) by (unfold src_bucket, dec1; rewrite ES; reflexivity).
-      assert (Esp : src_path q = bucket_dir sb ++ so) by (unfold src_path, dec1; rewrite ES; reflexivity).
-      destruct (sb =? "") eqn:E1; [constructor|].
-      destruct (pct_decode (bucket_dir sb ++ so)) as [sp|] eqn:D1; [|constructor].
+      assert (Ou : ok (".uploads" :: split_slash (q_upload q))) by (rewrite <- split_uploads_rel; apply HR; left; reflexivity).
+      assert (Op : ok (split_slash (dec1 (".uploads/" ++ q_upload q ++ "/" ++ q_part q)))) by (apply HR; right; left; reflexivity).
+      assert (Os : ok (split_slash (dec1 (src_rel q)))) by (apply HR; right; right; left; reflexivity).
+      fold (src_bucket q) in *.
+      change (match pct_decode (q_src q) with Some s => s | None => q_src q end) with (dec1 (q_src q)).
+      unfold src_rel in Os. unfold src_bucket in HS.
+      destruct (src_object_form (dec1 (q_src q))) as [o Eo].
+      destruct (src_bucket_object (dec1 (q_src q))) as [sb so] eqn:ES. simpl in Eo, HS, Os. subst so.
+      destruct (sb =? "") eqn:E1; [constructor|]. simpl in HS.
       apply Forall_app. split.
-      + rewrite <- Esb. apply (copy_src_cok q sp HS); [rewrite Esb; exact E1 | rewrite Esp; exact D1].
+      { apply within_forall. constructor; [|constructor]. apply lookup_cok. apply under_ext_uploads; assumption. }
+      destruct (is_dir_at fx _); [|constructor].
+      destruct (pct_decode (bucket_dir sb ++ String slash o)) as [sp|] eqn:D1; [|constructor].
+      apply Forall_app. split.
+      + exact (decoded_http_cok sb MGet o sp HS Os D1).
       + destruct (http_get_ok fx sp); [|constructor].
         destruct (pct_decode (uploads_dir (q_bucket q) ++ "/" ++ q_upload q ++ "/" ++ q_part q)) as [dp|] eqn:D2; [|constructor].
-        apply within_forall. exact (part_path_cok _ _ _ dp G HUD D2).
+        apply within_forall. exact (part_path_cok _ _ _ dp G Op D2).
     - (* RNewUpload *)
       apply within_forall. constructor; [|constructor]. unfold cok, effective. left.
-      apply under_app; [exact UU | apply okl_one; exact bad_uuid].
+      change (uploads_dir (q_bucket q) ++ "/" ++ "UUID") with (uploads_dir (q_bucket q) ++ String slash "UUID").
+      apply under_app. apply under_ext_uploads; [exact G|].
+      unfold okw. simpl. rewrite forbid_dotuploads. reflexivity.
     - (* RPutPart *)
-      apply within_forall. constructor; [apply lookup_cok; assumption|].
+      assert (Ou : ok (".uploads" :: split_slash (q_upload q))) by (rewrite <- split_uploads_rel; apply HR; left; reflexivity).
+      assert (Op : ok (split_slash (dec1 (".uploads/" ++ q_upload q ++ "/" ++ q_part q)))) by (apply HR; right; left; reflexivity).
+      apply within_forall. constructor; [apply lookup_cok; apply under_ext_uploads; assumption|].
       destruct (is_dir_at fx _); [|constructor].
       destruct (pct_decode (uploads_dir (q_bucket q) ++ "/" ++ q_upload q ++ "/" ++ q_part q)) as [dp|] eqn:D2; [|constructor].
-      exact (part_path_cok _ _ _ dp G HUD D2).
+      exact (part_path_cok _ _ _ dp G Op D2).
     - (* RComplete *)
+      assert (Ou : ok (".uploads" :: split_slash (q_upload q))) by (rewrite <- split_uploads_rel; apply HR; left; reflexivity).
+      assert (Oc : ok (split_slash (complete_rel q))) by (apply HR; right; left; reflexivity).
       apply within_forall.
-      assert (UD : under (q_bucket q) (uploads_dir (q_bucket q) ++ "/" ++ q_upload q)) by (apply under_app; assumption).
+      assert (UE : under_ext (q_bucket q) (uploads_dir (q_bucket q)) (split_slash (q_upload q))) by (apply under_ext_uploads; assumption).
+      assert (UD : under (q_bucket q) (uploads_dir (q_bucket q) ++ "/" ++ q_upload q)) by (apply under_app; exact UE).
       constructor; [unfold cok, effective; left; exact UD|].
       destruct (fx_has_children fx _); [|constructor].
       destruct (dir_and_name (uploads_dir (q_bucket q) ++ "/" ++ q_upload q)) as [ld ln] eqn:DN.
       assert (SU : split_slash (uploads_dir (q_bucket q) ++ "/" ++ q_upload q) =
                    ("" :: "buckets" :: q_bucket q :: (".uploads" :: split_slash (q_upload q)))%list).
       { change (uploads_dir (q_bucket q) ++ "/" ++ q_upload q) with (uploads_dir (q_bucket q) ++ String slash (q_upload q)).
-        rewrite split_app_slash. unfold uploads_dir.
-        change (bucket_dir (q_bucket q) ++ "/.uploads") with (bucket_dir (q_bucket q) ++ String slash ".uploads").
-        rewrite (opath_split (q_bucket q) ".uploads" G). reflexivity. }
-      assert (OC : okl (".uploads" :: split_slash (q_upload q))).
-      { intros s [E|Hs]; [subst s; exact bad_dotuploads | apply HU; exact Hs]. }
-      destruct (dn_under (q_bucket q) _ _ SU ltac:(discriminate) OC) as [Ud [On _]].
-      rewrite DN in Ud, On. simpl in Ud, On.
-      assert (Nn : no_slash ln = true).
-      { unfold dir_and_name in DN. destruct (rcut_slash (uploads_dir (q_bucket q) ++ "/" ++ q_upload q)) as [[d0 n]|] eqn:R.
-        - destruct (rcut_slash_spec _ _ _ R) as [_ N]. destruct (d0 =? ""); inversion DN; subst; exact N.
-        - inversion DN. reflexivity. }
-      constructor; [apply lookup_cok; [exact Ud | rewrite (no_slash_split _ Nn); exact On]|].
+        rewrite split_app_slash. rewrite (uploads_dir_split _ G). reflexivity. }
+      destruct (dn_under (q_bucket q) _ _ SU ltac:(discriminate) Ou) as [_ [_ [Ud _]]].
+      rewrite DN in Ud. simpl in Ud.
+      constructor; [apply lookup_cok; exact Ud|].
       destruct (exists_at fx _); [|constructor].
       destruct (complete_dir_name (q_bucket q) (trim_leading_slash (String slash k))) as [d n] eqn:CD.
-      pose proof (complete_under (q_bucket q) (trim_leading_slash (String slash k)) G) as CU.
-      rewrite CD in CU. simpl in CU.
-      constructor; [unfold cok, effective; left; apply CU; change (trim_leading_slash (String slash k)) with k; exact Ok|].
+      assert (CU : under (q_bucket q) (d ++ String slash n)).
+      { unfold complete_dir_name in CD. inversion CD; subst d n. apply under_app.
+        apply (strip_under_ext (q_bucket q) (complete_rel_dir (trim_leading_slash (String slash k))) _ G).
+        unfold complete_rel, rel_object in Oc. rewrite Ek in Oc.
+        change (complete_rel_dir (trim_leading_slash (String slash k)) ++ "/" ++ path_base (trim_leading_slash (String slash k)))
+          with (complete_rel_dir (trim_leading_slash (String slash k)) ++ String slash (path_base (trim_leading_slash (String slash k)))) in Oc.
+        rewrite split_app_slash in Oc. exact Oc. }
+      constructor; [unfold cok, effective; left; exact CU|].
       destruct (create_file_ok fx d n); [|constructor].
-      constructor; [apply delete_cok; assumption | constructor].
+      constructor; [apply delete_cok; exact UE | constructor].
     - (* RAbort *)
-      apply within_forall. constructor; [apply lookup_cok; assumption|].
+      assert (Ou : ok (".uploads" :: split_slash (q_upload q))) by (rewrite <- split_uploads_rel; apply HR; left; reflexivity).
+      assert (UE : under_ext (q_bucket q) (uploads_dir (q_bucket q)) (split_slash (q_upload q))) by (apply under_ext_uploads; assumption).
+      apply within_forall. constructor; [apply lookup_cok; exact UE|].
       destruct (is_dir_at fx _); [|constructor].
-      constructor; [apply delete_cok; assumption | constructor].
+      constructor; [apply delete_cok; exact UE | constructor].
     - (* RListParts *)
+      assert (Ou : ok (".uploads" :: split_slash (q_upload q))) by (rewrite <- split_uploads_rel; apply HR; left; reflexivity).
       apply within_forall. constructor; [|constructor]. unfold cok, effective. left.
-      apply under_app; assumption.
+      apply under_app. apply under_ext_uploads; assumption.
+    - (* RList *)
+      assert (Ol : ok (split_slash (list_rel prefix marker))) by (apply HR; left; reflexivity).
+      apply within_forall. apply marker_heads_cok.
+      apply (strip_under_ext (q_bucket q) (list_rel_dir prefix) _ G).
+      unfold list_rel in Ol.
+      change (list_rel_dir prefix ++ "/" ++ marker) with (list_rel_dir prefix ++ String slash marker) in Ol.
+      rewrite split_app_slash in Ol. exact Ol.
+    - (* RListUploads *)
+      apply within_forall. constructor; [|constructor]. unfold cok, effective. left.
+      apply (under_ext_uploads (q_bucket q) [] G).
+      unfold okw. simpl. rewrite forbid_dotuploads. reflexivity.
+    - (* RPutBucket *)
+      apply within_forall. constructor; [apply bucket_entry_lookup_cok; exact G|].
+      destruct (is_dir_at fx _); [constructor|].
+      constructor; [|constructor]. unfold cok, effective. left. apply under_bucket_dir. exact G.
+    - (* RDeleteBucket *)
+      pose proof (bucket_dn_lookup_cok (q_bucket q) G) as BL.
+      destruct (dir_and_name (buckets_path ++ "/" ++ q_bucket q)) as [d n] eqn:DN. simpl in BL.
+      apply within_forall. constructor; [exact BL|].
+      destruct (exists_at fx _); [|constructor].
+      constructor; [apply bucket_entry_delete_cok; exact G | constructor].
+    - (* RHeadBucket *)
+      pose proof (bucket_dn_lookup_cok (q_bucket q) G) as BL.
+      destruct (dir_and_name (buckets_path ++ "/" ++ q_bucket q)) as [d n] eqn:DN. simpl in BL.
+      apply within_forall. constructor; [exact BL | constructor].
+  Qed.
+
+  (* ----- listing: what lies below a head ----- *)
+  Hypothesis forbid_plain : forall s, plain_seg s = true -> forbid s = false.
+
+  Lemma child_dirs_plain : forall fx d n, fx_plain fx = true -> In n (child_dirs fx d) ->
+    plain_seg n = true /\ no_slash n = true.
+  Proof.
+    intros fx d n P H. unfold child_dirs in H. apply in_flat_map in H. destruct H as [e [He Hn]].
+    unfold fx_plain in P. rewrite forallb_forall in P. pose proof (P e He) as Pe.
+    destruct (rcut_slash (fst e)) as [[p0 n0]|] eqn:R; [|destruct Hn].
+    destruct (rcut_slash_spec _ _ _ R) as [_ N].
+    destruct ((p0 =? _) && snd e); [|destruct Hn]. simpl in Hn.
+    destruct (n0 =? "") eqn:E0; [destruct Hn|]. simpl in Pe.
+    destruct Hn as [Hn|[]]. subst n0. split; [exact Pe | exact N].
+  Qed.
+
+  Lemma list_desc_under : forall b fuel fx d p n, fx_plain fx = true -> under b d ->
+    In (p, n) (list_desc fuel fx d) -> under_ext b p [n] /\ no_slash n = true.
+  Proof.
+    intros b fuel. induction fuel as [|f IH]; intros fx d p n P U H; [destruct H|].
+    simpl in H. apply in_flat_map in H. destruct H as [n0 [Hn0 H]].
+    destruct (child_dirs_plain fx d n0 P Hn0) as [PL NS].
+    assert (UE : under_ext b d [n0]).
+    { apply under_spec in U. destruct U as [C [E O]]. exists C. split; [exact E|].
+      apply ok_snoc_plain; [exact O | exact PL | intros _; apply forbid_plain; exact PL]. }
+    destruct H as [H|H].
+    - inversion H; subst p n. split; [exact UE | exact NS].
+    - apply (IH fx (d ++ "/" ++ n0) p n P); [|exact H].
+      change (d ++ "/" ++ n0) with (d ++ String slash n0). apply under_app.
+      rewrite (no_slash_split n0 NS). exact UE.
+  Qed.
+
+  Lemma list_candidates_cok : forall b fx heads, good b -> fx_plain fx = true ->
+    (forall h, In h heads -> under b h) -> Forall (cok b) (list_candidates fx b heads).
+  Proof.
+    intros b fx heads G P H. unfold list_candidates. constructor; [apply bucket_entry_lookup_cok; exact G|].
+    apply Forall_forall. intros c Hc.
+    apply in_flat_map in Hc. destruct Hc as [h [Hh Hc]].
+    apply in_flat_map in Hc. destruct Hc as [[p n] [Hpn Hc]].
+    destruct (list_desc_under b _ fx h p n P (H h Hh) Hpn) as [UE NS].
+    simpl in Hc. destruct Hc as [Hc|[Hc|[]]]; subst c.
+    - unfold cok, effective. left. change (p ++ "/" ++ n) with (p ++ String slash n). apply under_app.
+      rewrite (no_slash_split n NS). exact UE.
+    - apply delete_cok. rewrite (no_slash_split n NS). exact UE.
+  Qed.
+
+  Lemma marker_heads_under : forall b fuel dir marker h, under_ext b dir (split_slash marker) ->
+    In h (marker_heads fuel dir marker) -> under b h.
+  Proof.
+    intros b fuel. induction fuel as [|f IH]; intros dir marker h U H.
+    - simpl in H. destruct H as [H|[]]. subst h. exact (under_ext_under b dir _ U).
+    - simpl in H. destruct (cut_slash marker) as [[sub rest]|] eqn:EC.
+      + apply in_app_or in H. destruct H as [H|[H|[]]].
+        * apply (IH (dir ++ "/" ++ sub) rest); [|exact H].
+          destruct (cut_slash_spec _ _ _ EC) as [EM NS]. rewrite EM in U.
+          rewrite split_app_slash in U. rewrite (no_slash_split sub NS) in U.
+          change (dir ++ "/" ++ sub) with (dir ++ String slash sub).
+          apply under_ext_app. rewrite (no_slash_split sub NS). exact U.
+        * subst h. exact (under_ext_under b dir _ U).
+      + destruct H as [H|[]]. subst h. exact (under_ext_under b dir _ U).
+  Qed.
+
+  Lemma candidates_cok : forall fx q, good (q_bucket q) -> rels_ok q ->
+    (route_needs_plain_fx (q_route q) = true -> fx_plain fx = true) ->
+    Forall (cok (q_bucket q)) (candidates fx q).
+  Proof.
+    intros fx q G HR HP. unfold candidates. unfold rels_ok, rels in HR.
+    destruct (q_route q) eqn:ER; try solve [constructor].
+    - apply purge_candidates_cok; [exact G | exact HR].
+    - apply list_candidates_cok; [exact G | apply HP; reflexivity|].
+      intros h Hh. apply (marker_heads_under (q_bucket q) _ _ _ h) in Hh; [exact Hh|].
+      assert (Ol : ok (split_slash (list_rel prefix marker))) by (apply HR; left; reflexivity).
+      apply (strip_under_ext (q_bucket q) (list_rel_dir prefix) _ G).
+      unfold list_rel in Ol.
+      change (list_rel_dir prefix ++ "/" ++ marker) with (list_rel_dir prefix ++ String slash marker) in Ol.
+      rewrite split_app_slash in Ol. exact Ol.
   Qed.
 End Under.
 
-(* ---------- instance 1: ".." is the only forbidden segment: containment ---------- *)
-
-Definition bad_dd (s : string) : bool := s =? "..".
-
-Lemma has_seg_okl : forall x s, has_seg x s = false -> forall y, In y (split_slash s) -> (y =? x) = false.
-Proof.
-  intros x s H y Hy. unfold has_seg in H.
-  destruct (y =? x) eqn:E; [|reflexivity]. apply str_eqb_true in E. subst y.
-  assert (existsb (String.eqb x) (split_slash s) = true).
-  { apply existsb_exists. exists x. split; [exact Hy | apply String.eqb_refl]. }
-  rewrite H in H0. discriminate.
-Qed.
-
-Lemma okl_dd_of : forall s, has_dotdot s = false -> okl bad_dd (split_slash s).
-Proof. intros s H y Hy. unfold bad_dd. exact (has_seg_okl ".." s H y Hy). Qed.
-
-Lemma existsb_app_false : forall A (f : A -> bool) l1 l2, existsb f (l1 ++ l2) = false -> existsb f l1 = false /\ existsb f l2 = false.
-Proof. intros A f l1 l2 H. rewrite existsb_app in H. apply orb_false_iff in H. exact H. Qed.
+(* ---------- instance 1: nothing forbidden below the bucket: containment ---------- *)
 
 Lemma existsb_false_in : forall A (f : A -> bool) l x, existsb f l = false -> In x l -> f x = false.
 Proof.
@@ -1019,45 +1365,24 @@ Proof.
   assert (existsb f l = true) by (apply existsb_exists; exists x; split; assumption). rewrite H in H0. discriminate.
 Qed.
 
-Lemma good_of_bad_bucket : forall b, bad_bucket b = false -> good b.
-Proof. intros b H. exact H. Qed.
-
-Lemma hyps_of_trigger : forall (bad : string -> bool) q,
-  (forall s, In s (obj_paths q) -> okl bad (split_slash s)) ->
-  ((q_src q =? "") = false -> bad_bucket (src_bucket q) = false) ->
-  obj_hyp bad q.
-Proof.
-  intros bad q H HB. unfold obj_paths in H. repeat split.
-  - apply H. left. reflexivity.
-  - apply H. right. left. reflexivity.
-  - apply HB. apply String.eqb_neq. exact H0.
-  - apply H. right. right. apply in_or_app. left.
-    destruct (q_src q =? "") eqn:E; [apply str_eqb_true in E; contradiction | left; reflexivity].
-  - intros k Hk. apply H. right. right. apply in_or_app. right. exact Hk.
-Qed.
-
-Lemma cok_contained : forall b c, good b -> cok bad_dd b c -> call_contained (b, c) = true.
+Lemma cok_contained : forall b c, good b -> cok forbid_none b c -> call_contained (b, c) = true.
 Proof.
   intros b c G H. unfold call_contained. simpl. unfold cok in H.
   destruct (effective c) as [e|]; [|reflexivity].
   destruct H as [U|[X [U [E|E]]]].
-  - exact (under_contained bad_dd eq_refl b e G U).
-  - subst e. rewrite (contained_clean b X (under_rooted bad_dd b X U)). exact (under_contained bad_dd eq_refl b X G U).
-  - subst e. rewrite (contained_mux_clean b X (under_rooted bad_dd b X U)). exact (under_contained bad_dd eq_refl b X G U).
-Qed.
-
-Lemma src_good : forall q, req_dotdot q = false -> (q_src q =? "") = false -> bad_bucket (src_bucket q) = false.
-Proof.
-  intros q H E. unfold req_dotdot in H. apply orb_false_iff in H. destruct H as [_ H].
-  rewrite E in H. simpl in H. exact H.
+  - exact (under_contained forbid_none b e G U).
+  - subst e. rewrite (contained_clean b X (under_rooted forbid_none b X U)). exact (under_contained forbid_none b X G U).
+  - subst e. rewrite (contained_mux_clean b X (under_rooted forbid_none b X U)). exact (under_contained forbid_none b X G U).
 Qed.
 
 Lemma within_ctx : forall b c b0 l, In (b, c) (within b0 l) -> b = b0.
 Proof. intros b c b0 l H. unfold within in H. apply in_map_iff in H. destruct H as [x [E _]]. inversion E. reflexivity. Qed.
 
+Definition copy_route (r : route) : bool := match r with RCopy _ | RCopyPart => true | _ => false end.
+
 (* the bucket a call is attributed to: the request's bucket, or the (non-empty) copy source bucket *)
 Lemma calls_ctx : forall fx q b c, In (b, c) (calls fx q) ->
-  b = q_bucket q \/ (b = src_bucket q /\ (src_bucket q =? "") = false).
+  b = q_bucket q \/ (b = src_bucket q /\ (src_bucket q =? "") = false /\ copy_route (q_route q) = true).
 Proof.
   intros fx q b c H. unfold calls in H.
   destruct (q_route q).
@@ -1074,14 +1399,17 @@ Proof.
       match type of H with In _ (if ?c then _ else _) => destruct c end; [destruct H|].
       destruct (pct_decode (bucket_dir sb ++ so)); [|destruct H].
       apply in_app_or in H. destruct H as [H|H].
-      * right. rewrite Esb. split; [exact (within_ctx _ _ _ _ H) | exact E1].
-      * destruct (pct_decode (bucket_dir (q_bucket q) ++ norm_object (q_object q))); [left; exact (within_ctx _ _ _ _ H) | destruct H].
+      * right. rewrite Esb. split; [exact (within_ctx _ _ _ _ H) | split; [exact E1 | reflexivity]].
+      * destruct (http_get_ok _ _); [|destruct H].
+        destruct (pct_decode (bucket_dir (q_bucket q) ++ norm_object (q_object q))); [left; exact (within_ctx _ _ _ _ H) | destruct H].
   - destruct (src_bucket_object _) as [sb so] eqn:ES.
     assert (Esb : src_bucket q = sb) by (unfold src_bucket, dec1; rewrite ES; reflexivity).
     destruct (sb =? "") eqn:E1; [destruct H|].
+    apply in_app_or in H. destruct H as [H|H]; [left; exact (within_ctx _ _ _ _ H)|].
+    destruct (is_dir_at _ _); [|destruct H].
     destruct (pct_decode (bucket_dir sb ++ so)); [|destruct H].
     apply in_app_or in H. destruct H as [H|H].
-    + right. rewrite Esb. split; [exact (within_ctx _ _ _ _ H) | exact E1].
+    + right. rewrite Esb. split; [exact (within_ctx _ _ _ _ H) | split; [exact E1 | reflexivity]].
     + destruct (http_get_ok _ _); [|destruct H]. destruct (pct_decode (uploads_dir _ ++ _)); [left; exact (within_ctx _ _ _ _ H) | destruct H].
   - left; exact (within_ctx _ _ _ _ H).
   - left; exact (within_ctx _ _ _ _ H).
@@ -1091,62 +1419,76 @@ Proof.
   - destruct (dir_and_name _) as [d n]. left; exact (within_ctx _ _ _ _ H).
   - destruct (dir_and_name _) as [d n]. left; exact (within_ctx _ _ _ _ H).
   - destruct (dir_and_name _) as [d n]. left; exact (within_ctx _ _ _ _ H).
+  - left; exact (within_ctx _ _ _ _ H).
+  - left; exact (within_ctx _ _ _ _ H).
+  - left; exact (within_ctx _ _ _ _ H).
+  - destruct (dir_and_name _) as [d n]. left; exact (within_ctx _ _ _ _ H).
+  - destruct (dir_and_name _) as [d n]. left; exact (within_ctx _ _ _ _ H).
+  - left; exact (within_ctx _ _ _ _ H).
 Qed.
 
-Lemma ctx_good : forall fx q b c, bad_bucket (q_bucket q) = false -> req_dotdot q = false ->
+Lemma ctx_good : forall fx q b c, bad_bucket (q_bucket q) = false -> src_bad q = false ->
   In (b, c) (calls fx q) -> good b.
 Proof.
-  intros fx q b c GB T H. destruct (calls_ctx fx q b c H) as [E|[E NE]]; subst b; [exact GB|].
-  apply (src_good q T). destruct (q_src q =? "") eqn:EQ; [|reflexivity].
-  apply str_eqb_true in EQ. unfold src_bucket, dec1 in NE. rewrite EQ in NE. discriminate.
+  intros fx q b c GB T H. destruct (calls_ctx fx q b c H) as [E|[E [NE CR]]]; subst b; [exact GB|].
+  unfold src_bad in T. unfold good.
+  destruct (q_route q); try discriminate CR; rewrite NE in T; simpl in T; exact T.
 Qed.
 
-Theorem contained_partial : forall fx q,
-  bad_bucket (q_bucket q) = false -> req_dotdot q = false -> all_contained fx q = true.
+Lemma rels_ok_of : forall forbid q, existsb (fun s => escapes forbid [] (split_slash s)) (rels q) = false ->
+  rels_ok forbid q.
+Proof. intros forbid q H s Hs. exact (existsb_false_in _ _ _ s H Hs). Qed.
+
+Theorem calls_contained_partial : forall fx q,
+  bad_bucket (q_bucket q) = false -> req_climbs q = false -> req_noslash q = false ->
+  forallb call_contained (calls fx q) = true.
 Proof.
-  intros fx q GB T.
+  intros fx q GB T NS.
   assert (G : good (q_bucket q)) by exact GB.
-  assert (Bb : bad_dd (q_bucket q) = false).
-  { destruct (good_spec (q_bucket q) G) as [_ [_ [N _]]]. unfold bad_dd. apply String.eqb_neq. exact N. }
-  pose proof T as T0. unfold req_dotdot in T. apply orb_false_iff in T. destruct T as [T1 T2].
-  apply existsb_app_false in T1. destruct T1 as [TO TM].
-  assert (HO : obj_hyp bad_dd q).
-  { apply hyps_of_trigger.
-    - intros s Hs. apply okl_dd_of. exact (existsb_false_in _ _ _ s TO Hs).
-    - intros E. exact (src_good q T0 E). }
-  assert (HM : mp_hyp bad_dd q).
-  { unfold mp_paths in TM. split.
-    - apply okl_dd_of. apply (existsb_false_in _ _ _ _ TM). left. reflexivity.
-    - apply okl_dd_of. apply (existsb_false_in _ _ _ _ TM). right. left. reflexivity. }
-  assert (F : Forall (cokc bad_dd) (calls fx q)).
+  unfold req_climbs in T. apply orb_false_iff in T. destruct T as [TR TS].
+  pose proof (rels_ok_of forbid_none q TR) as HR.
+  assert (F : Forall (cokc forbid_none) (calls fx q)).
   { destruct (object_route (q_route q)) eqn:OR.
-    - exact (calls_object_cok bad_dd eq_refl eq_refl eq_refl fx q G Bb OR HO).
-    - exact (calls_multipart_cok bad_dd eq_refl eq_refl eq_refl eq_refl eq_refl fx q G Bb OR HO HM). }
-  unfold all_contained. apply andb_true_iff. split.
-  - apply forallb_forall. intros [b c] Hc. rewrite Forall_forall in F. pose proof (F _ Hc) as K. unfold cokc in K. simpl in K.
-    exact (cok_contained b c (ctx_good fx q b c GB T0 Hc) K).
-  - apply forallb_forall. intros c Hc.
-    assert (HK : forall k, In k (q_keys q) -> okl bad_dd (split_slash k)) by (destruct HO as [_ [_ [_ HK]]]; exact HK).
-    pose proof (purge_candidates_cok bad_dd (q_bucket q) (q_keys q) G HK) as P.
-    rewrite Forall_forall in P. exact (cok_contained _ c G (P c Hc)).
+    - exact (calls_object_cok forbid_none fx q G eq_refl OR HR TS NS).
+    - exact (calls_other_cok forbid_none eq_refl fx q G OR HR TS). }
+  apply forallb_forall. intros [b c] Hc. rewrite Forall_forall in F. pose proof (F _ Hc) as K. unfold cokc in K. simpl in K.
+  exact (cok_contained b c (ctx_good fx q b c GB TS Hc) K).
 Qed.
 
-(* ---------- instance 2: ".." and ".uploads" forbidden: the multipart area ---------- *)
-
-Definition bad_up (s : string) : bool := (s =? "..") || (s =? ".uploads").
-
-Lemma okl_up_of : forall s, has_dotdot s = false -> has_seg ".uploads" s = false -> okl bad_up (split_slash s).
+Theorem candidates_contained_partial : forall fx q,
+  bad_bucket (q_bucket q) = false -> req_climbs q = false ->
+  (route_needs_plain_fx (q_route q) = true -> fx_plain fx = true) ->
+  candidates_contained fx q = true.
 Proof.
-  intros s H1 H2 y Hy. unfold bad_up.
-  rewrite (has_seg_okl ".." s H1 y Hy). rewrite (has_seg_okl ".uploads" s H2 y Hy). reflexivity.
+  intros fx q GB T HP.
+  assert (G : good (q_bucket q)) by exact GB.
+  unfold req_climbs in T. apply orb_false_iff in T. destruct T as [TR TS].
+  pose proof (rels_ok_of forbid_none q TR) as HR.
+  pose proof (candidates_cok forbid_none (fun s _ => eq_refl) fx q G HR HP) as F.
+  unfold candidates_contained. apply forallb_forall. intros c Hc. rewrite Forall_forall in F.
+  exact (cok_contained _ c G (F c Hc)).
 Qed.
 
-Lemma split_clean_under : forall bad b X, bad ".." = true -> good b -> under bad b X ->
-  exists C', split_slash (clean X) = ("" :: "buckets" :: b :: C')%list /\ okl bad C'.
+Theorem contained_partial2 : forall fx q,
+  bad_bucket (q_bucket q) = false -> req_climbs q = false -> req_noslash q = false ->
+  (forall k, In k (q_keys q) -> climbs k = false) ->
+  all_contained fx q = true.
 Proof.
-  intros bad b X BD G U.
-  destruct (rsegs_under bad BD b X G U) as [C' [E [O F]]]. exists C'. split; [|exact O].
-  rewrite (clean_rooted X (under_rooted bad b X U)). rewrite E.
+  intros fx q GB T NS HK. unfold all_contained. apply andb_true_iff. split.
+  - exact (calls_contained_partial fx q GB T NS).
+  - pose proof (purge_candidates_cok forbid_none (q_bucket q) (q_keys q) GB HK) as P.
+    apply forallb_forall. intros c Hc. rewrite Forall_forall in P. exact (cok_contained _ c GB (P c Hc)).
+Qed.
+
+(* ---------- instance 2: ".uploads" forbidden below the bucket: the multipart area ---------- *)
+
+Lemma split_clean_under : forall forbid b X, good b -> under forbid b X ->
+  exists C', split_slash (clean X) = ("" :: "buckets" :: b :: C')%list /\
+             (forall x r, C' = (x :: r)%list -> forbid x = false).
+Proof.
+  intros forbid b X G U.
+  destruct (rsegs_under forbid b X G U) as [C [C' [_ [_ [_ [E [_ BT]]]]]]]. exists C'. split; [|exact BT].
+  rewrite (clean_rooted X (under_rooted forbid b X U)). rewrite E.
   change ("/" ++ join_slash ("buckets" :: b :: C')) with ("" ++ String slash (join_slash ("buckets" :: b :: C'))).
   rewrite split_app_slash. rewrite split_join; [reflexivity | discriminate |].
   pose proof (rsegs_no_slash X) as NS. rewrite E in NS. exact NS.
@@ -1155,80 +1497,81 @@ Qed.
 Lemma split_uploads_dir : forall b, good b -> split_slash (clean (uploads_dir b)) = ["" ; "buckets"; b; ".uploads"].
 Proof.
   intros b G.
-  assert (U : under bad_dd b (uploads_dir b)) by (apply (under_uploads bad_dd eq_refl); exact G).
-  destruct (good_spec b G) as [B1 [B2 [B3 [N _]]]].
-  rewrite (clean_rooted _ (under_rooted bad_dd b _ U)).
-  assert (R : rsegs (uploads_dir b) = ["buckets"; b; ".uploads"]).
-  { unfold rsegs, uploads_dir. change (bucket_dir b ++ "/.uploads") with (bucket_dir b ++ String slash ".uploads").
-    rewrite split_app_slash. rewrite (split_bucket_dir b N). rewrite norm_nodd.
-    - simpl. unfold keep. simpl.
-      destruct (b =? "") eqn:E1; [apply str_eqb_true in E1; contradiction|].
-      destruct (b =? ".") eqn:E2; [apply str_eqb_true in E2; contradiction|]. reflexivity.
-    - intros s [Hs|[Hs|[Hs|[Hs|[]]]]]; subst s; try discriminate. exact B3. }
-  rewrite R.
+  assert (U : under forbid_none b (uploads_dir b)) by (apply (under_ext_uploads forbid_none b [] G); reflexivity).
+  destruct (rsegs_under forbid_none b _ G U) as [C [C' [E [_ [EC [R _]]]]]].
+  rewrite (uploads_dir_split b G) in E. inversion E; subst C.
+  assert (EC' : C' = [".uploads"]) by (rewrite EC; reflexivity).
+  rewrite (clean_rooted _ (under_rooted forbid_none b _ U)). rewrite R, EC'.
+  destruct (good_spec b G) as [_ [_ [_ [N _]]]].
   change ("/" ++ join_slash ["buckets"; b; ".uploads"]) with ("" ++ String slash (join_slash ["buckets"; b; ".uploads"])).
   rewrite split_app_slash. rewrite split_join; [reflexivity | discriminate |].
   repeat constructor. exact N.
 Qed.
 
-Lemma under_not_uploads : forall b X, good b -> under bad_up b X ->
+Lemma under_not_uploads : forall b X, good b -> under forbid_uploads b X ->
   inside (clean (uploads_dir b)) (clean X) = false.
 Proof.
-  intros b X G U. destruct (split_clean_under bad_up b X eq_refl G U) as [C' [E O]].
+  intros b X G U. destruct (split_clean_under forbid_uploads b X G U) as [C' [E BT]].
   pose proof (split_uploads_dir b G) as SU.
   unfold inside. apply orb_false_iff. split.
   - destruct (clean X =? clean (uploads_dir b)) eqn:EQ; [|reflexivity].
     apply str_eqb_true in EQ. rewrite EQ, SU in E. inversion E; subst C'.
-    assert (bad_up ".uploads" = false) by (apply O; left; reflexivity). discriminate.
+    pose proof (BT _ _ eq_refl) as K. discriminate.
   - destruct (String.prefix (clean (uploads_dir b) ++ "/") (clean X)) eqn:EP; [|reflexivity].
     destruct (prefix_exists _ _ EP) as [z Ez].
     rewrite Ez in E. rewrite append_assoc in E. change ("/" ++ z) with (String slash z) in E.
     rewrite split_app_slash, SU in E. inversion E; subst C'.
-    assert (bad_up ".uploads" = false) by (apply O; left; reflexivity). discriminate.
+    pose proof (BT _ _ eq_refl) as K. discriminate.
 Qed.
 
-Lemma cok_not_uploads : forall b c, good b -> cok bad_up b c -> call_in_uploads (b, c) = false.
+Lemma cok_not_uploads : forall b c, good b -> cok forbid_uploads b c -> call_in_uploads (b, c) = false.
 Proof.
   intros b c G H. unfold call_in_uploads. simpl. unfold cok in H.
   destruct (effective c) as [e|]; [|reflexivity].
   destruct H as [U|[X [U [E|E]]]].
   - exact (under_not_uploads b e G U).
-  - subst e. rewrite (clean_idem X (under_rooted bad_up b X U)). exact (under_not_uploads b X G U).
-  - subst e. rewrite (clean_mux_clean X (under_rooted bad_up b X U)). exact (under_not_uploads b X G U).
+  - subst e. rewrite (clean_idem X (under_rooted forbid_uploads b X U)). exact (under_not_uploads b X G U).
+  - subst e. rewrite (clean_mux_clean X (under_rooted forbid_uploads b X U)). exact (under_not_uploads b X G U).
 Qed.
 
-Theorem uploads_hidden_partial : forall fx q,
+Theorem uploads_hidden_partial2 : forall fx q,
   bad_bucket (q_bucket q) = false -> q_bucket q <> ".uploads" ->
-  req_dotdot q = false -> req_uploads_seg q = false -> uploads_hidden fx q = true.
+  req_enters_uploads q = false -> req_noslash q = false -> uploads_hidden fx q = true.
 Proof.
-  intros fx q GB NU T TU. unfold uploads_hidden.
+  intros fx q GB NU T NS. unfold uploads_hidden.
   destruct (object_route (q_route q)) eqn:OR; [|reflexivity]. simpl.
   apply negb_true_iff.
   assert (G : good (q_bucket q)) by exact GB.
-  assert (Bb : bad_up (q_bucket q) = false).
-  { destruct (good_spec (q_bucket q) G) as [_ [_ [N _]]]. unfold bad_up.
-    apply orb_false_iff. split; apply String.eqb_neq; assumption. }
-  pose proof T as T0. unfold req_dotdot in T. apply orb_false_iff in T. destruct T as [T1 T2].
-  apply existsb_app_false in T1. destruct T1 as [TO TM].
-  unfold req_uploads_seg in TU. rewrite OR in TU. rewrite andb_true_l in TU.
-  assert (HO : obj_hyp bad_up q).
-  { apply hyps_of_trigger.
-    - intros s Hs. apply okl_up_of; [exact (existsb_false_in _ _ _ s TO Hs) | exact (existsb_false_in _ _ _ s TU Hs)].
-    - intros E. exact (src_good q T0 E). }
-  pose proof (calls_object_cok bad_up eq_refl eq_refl eq_refl fx q G Bb OR HO) as F.
+  assert (Bb : forbid_uploads (q_bucket q) = false) by (apply String.eqb_neq; exact NU).
+  unfold req_enters_uploads in T. rewrite OR in T. simpl in T.
+  apply orb_false_iff in T. destruct T as [TR TS].
+  pose proof (rels_ok_of forbid_uploads q TR) as HR.
+  pose proof (calls_object_cok forbid_uploads fx q G Bb OR HR TS NS) as F.
   destruct (existsb call_in_uploads (calls fx q)) eqn:EX; [|reflexivity].
   apply existsb_exists in EX. destruct EX as [[b c] [Hc Hu]].
   rewrite Forall_forall in F. pose proof (F _ Hc) as K. unfold cokc in K. simpl in K.
-  rewrite (cok_not_uploads b c (ctx_good fx q b c GB T0 Hc) K) in Hu. discriminate.
+  rewrite (cok_not_uploads b c (ctx_good fx q b c GB TS Hc) K) in Hu. discriminate.
+Qed.
+
+(* the empty-folder purge of a batch delete does not reach the multipart area either *)
+Theorem purge_hidden : forall b keys,
+  bad_bucket b = false -> (forall k, In k keys -> enters_uploads k = false) ->
+  existsb (fun c => call_in_uploads (b, c)) (purge_candidates b keys) = false.
+Proof.
+  intros b keys GB HK.
+  pose proof (purge_candidates_cok forbid_uploads b keys GB HK) as P.
+  destruct (existsb (fun c => call_in_uploads (b, c)) (purge_candidates b keys)) eqn:EX; [|reflexivity].
+  apply existsb_exists in EX. destruct EX as [c [Hc Hu]].
+  rewrite Forall_forall in P. rewrite (cok_not_uploads b c GB (P c Hc)) in Hu. discriminate.
 Qed.
 
 (* ---------- the cleaning lemma in its plain form ---------- *)
 
-Theorem clean_stays_under : forall b rest,
-  bad_bucket b = false -> has_dotdot rest = false -> contained b (bucket_dir b ++ "/" ++ rest) = true.
+Theorem clean_stays_under2 : forall b rest,
+  bad_bucket b = false -> climbs rest = false -> contained b (bucket_dir b ++ "/" ++ rest) = true.
 Proof.
-  intros b rest G H. apply (under_contained bad_dd eq_refl b _ G).
-  apply (under_opath bad_dd); [exact G | apply okl_dd_of; exact H].
+  intros b rest G H. apply (under_contained forbid_none b _ G).
+  apply (under_opath forbid_none); [exact G | exact H].
 Qed.
 
 Theorem clean_idempotent : forall p, starts_with_slash p = true -> clean (clean p) = clean p.
@@ -1244,11 +1587,15 @@ Qed.
 
 Definition fx_demo : fixture :=
   [ ("/", true); ("/buckets", true); ("/buckets/b", true); ("/buckets/b/obj", false);
+    ("/buckets/b/x", true); ("/buckets/b/x/y", false); ("/buckets/b/x/z", true); ("/buckets/b/x/z/w", false);
     ("/buckets/b/.uploads", true); ("/buckets/b/.uploads/u1", true); ("/buckets/b/.uploads/u1/0001.part", false);
-    ("/buckets/other", true); ("/buckets/other/obj", false) ].
+    ("/buckets/other", true); ("/buckets/other/obj", false);
+    ("/etc", true); ("/etc/secret", false) ].
 
 Definition rq (r : route) (object upload src : string) (keys : list string) : req :=
   mk_req r "b" object upload "0001.part" src keys.
+Definition rqb (r : route) (bucket object : string) : req :=
+  mk_req r bucket object "" "0001.part" "" [].
 
 (* GET /b/x/../../other/obj is served from /buckets/other/obj *)
 Definition esc_get : req := rq RGet "x/../../other/obj" "" "" [].
@@ -1260,8 +1607,12 @@ Definition esc_abort : req := rq RAbort "k" "../../other" "" [].
 Definition esc_tag : req := rq RGetTag "x/../../other/obj" "" "" [].
 (* PUT /b/new with X-Amz-Copy-Source: b/../other/obj copies from the other bucket *)
 Definition esc_copy : req := rq (RCopy false) "new" "" "b/../other/obj" [].
+(* GET /b?prefix=../other/ lists the directory string /buckets/b/../other *)
+Definition esc_list : req := rq (RList false "../other/" "" false) "" "" "" [].
 (* GET /b/.uploads/u1/0001.part addresses a part of an upload in progress *)
 Definition up_get : req := rq RGet ".uploads/u1/0001.part" "" "" [].
+(* GET /b/x/../.uploads/u1/0001.part: no climbing, but the same part *)
+Definition up_get2 : req := rq RGet "x/../.uploads/u1/0001.part" "" "" [].
 
 Theorem contained_refuted : exists fx q,
   bad_bucket (q_bucket q) = false /\ all_contained fx q = false /\
@@ -1271,18 +1622,66 @@ Proof. exists fx_demo, esc_get. vm_compute. repeat split; reflexivity. Qed.
 Theorem contained_refuted_all :
   all_contained fx_demo esc_get = false /\ all_contained fx_demo esc_batch = false /\
   all_contained fx_demo esc_abort = false /\ all_contained fx_demo esc_tag = false /\
-  all_contained fx_demo esc_copy = false.
+  all_contained fx_demo esc_copy = false /\ all_contained fx_demo esc_list = false.
 Proof. vm_compute. repeat split; reflexivity. Qed.
 
 Theorem uploads_hidden_refuted : exists fx q,
-  bad_bucket (q_bucket q) = false /\ req_dotdot q = false /\ object_route (q_route q) = true /\
+  bad_bucket (q_bucket q) = false /\ req_climbs q = false /\ object_route (q_route q) = true /\
   uploads_hidden fx q = false.
 Proof. exists fx_demo, up_get. vm_compute. repeat split; reflexivity. Qed.
+
+(* the two findings are told apart: up_get2 has a ".." segment but does not climb; it is
+   inside the trigger set of finding 1 only *)
+Theorem uploads_hidden_refuted_dotdot :
+  req_dotdot up_get2 = true /\ req_climbs up_get2 = false /\ req_enters_uploads up_get2 = true /\
+  all_contained fx_demo up_get2 = true /\ uploads_hidden fx_demo up_get2 = false.
+Proof. vm_compute. repeat split; reflexivity. Qed.
+
+(* finding 2: a bucket name that is not an ordinary name.  DELETE /. looks up and
+   recursively deletes /buckets itself; GET /../etc/secret is served from /etc/secret *)
+Definition bad_delete : req := rqb RDeleteBucket "." "".
+Definition bad_get : req := rqb RGet ".." "etc/secret".
+
+Theorem bad_bucket_refuted :
+  bad_bucket (q_bucket bad_delete) = true /\
+  map snd (calls fx_demo bad_delete) = [GLookup "/buckets" "."; GDelete "/buckets" "." true] /\
+  effective (GDelete "/buckets" "." true) = Some "/buckets" /\
+  bad_bucket (q_bucket bad_get) = true /\
+  map (fun c => effective (snd c)) (calls fx_demo bad_get) = [None; Some "/etc/secret"].
+Proof. vm_compute. repeat split; reflexivity. Qed.
+
+(* finding 3: POST /oth with the form field key = "er/obj" writes /buckets/other/obj *)
+Definition post_noslash : req := rqb RPostPolicy "oth" "er/obj".
+
+Theorem postpolicy_refuted :
+  bad_bucket (q_bucket post_noslash) = false /\ req_climbs post_noslash = false /\ req_noslash post_noslash = true /\
+  map snd (calls fx_demo post_noslash) = [Http MPut "/buckets/other/obj"] /\
+  forallb call_contained (calls fx_demo post_noslash) = false.
+Proof. vm_compute. repeat split; reflexivity. Qed.
 
 (* non-vacuity: an ordinary request satisfies the hypotheses and produces calls *)
 Example partial_nonvacuous :
   let q := rq RPutTag "x/./y//z" "" "" [] in
   bad_bucket (q_bucket q) = false /\ req_dotdot q = false /\ req_uploads_seg q = false /\
+  req_climbs q = false /\ req_enters_uploads q = false /\ req_noslash q = false /\
   map snd (calls fx_demo q) = [GLookup "/buckets/b/x/./y/" "z"] /\
   all_contained fx_demo q = true /\ uploads_hidden fx_demo q = true.
+Proof. vm_compute. repeat split; reflexivity. Qed.
+
+(* non-vacuity of the narrowing: a key with ".." segments that never climbs is covered by
+   the partial theorems (it was excluded by the old trigger) *)
+Example narrowed_nonvacuous :
+  let q := rq RDelTag "x/../x/z/../y" "" "" [] in
+  req_dotdot q = true /\ req_climbs q = false /\ req_enters_uploads q = false /\
+  map (fun c => effective (snd c)) (calls fx_demo q) = [Some "/buckets/b/x/y"] /\
+  all_contained fx_demo q = true.
+Proof. vm_compute. repeat split; reflexivity. Qed.
+
+(* non-vacuity for listings: the marker chain and the directories below it *)
+Example list_nonvacuous :
+  let q := rq (RList true "x/" "z/w" true) "" "" "" [] in
+  fx_plain fx_demo = true /\ req_climbs q = false /\
+  map snd (calls fx_demo q) = [GList "/buckets/b/x/z"; GList "/buckets/b/x"] /\
+  candidates fx_demo q = [GLookup "/buckets" "b"; GList "/buckets/b/x/z"; GDelete "/buckets/b/x" "z" true] /\
+  candidates_contained fx_demo q = true.
 Proof. vm_compute. repeat split; reflexivity. Qed.
